@@ -1,2 +1,1922 @@
-(* placeholder while the harness is brought up *)
+(* C14 proofs. *)
+From Coq Require Import List ZArith String Ascii Bool Arith Lia Sorted Permutation.
 From Verif Require Import Lib.Sexp Model.C14_finder.
+Import ListNotations.
+Open Scope string_scope.
+Open Scope list_scope.
+
+(* ------------------------------------------------------------------------------------------------------------- *)
+(* boolean equalities *)
+Lemma lstr_eqb_refl : forall a, lstr_eqb a a = true.
+Proof. induction a; simpl; auto. rewrite String.eqb_refl. auto. Qed.
+
+Lemma lstr_eqb_eq : forall a b, lstr_eqb a b = true <-> a = b.
+Proof.
+  induction a; destruct b; simpl; split; intro H; try discriminate; auto.
+  - apply andb_true_iff in H. destruct H as [H1 H2]. apply String.eqb_eq in H1. apply IHa in H2. subst. auto.
+  - inversion H; subst. rewrite String.eqb_refl. simpl. apply IHa. auto.
+Qed.
+
+Lemma lstr_eqb_neq : forall a b, lstr_eqb a b = false <-> a <> b.
+Proof.
+  intros. split; intro H.
+  - intro E. apply lstr_eqb_eq in E. congruence.
+  - destruct (lstr_eqb a b) eqn:E; auto. apply lstr_eqb_eq in E. contradiction.
+Qed.
+
+Lemma path_eqb_eq : forall p q, path_eqb p q = true <-> p = q.
+Proof.
+  intros [i a] [j b]. unfold path_eqb. simpl. rewrite andb_true_iff, Nat.eqb_eq, lstr_eqb_eq.
+  split; intro H. destruct H; subst; auto. inversion H; auto.
+Qed.
+
+Lemma path_eqb_refl : forall p, path_eqb p p = true.
+Proof. intro. apply path_eqb_eq. auto. Qed.
+
+(* ------------------------------------------------------------------------------------------------------------- *)
+(* Part A.  find_package against PathFinder/FileFinder *)
+
+(* what a search directory may offer for the top-level name so that the two finders are expected to agree *)
+Definition top_ok (U : universe) (name : string) (i : nat) : bool :=
+  let L := root U i in
+  forallb (fun s => negb (has_file (name ++ s)%string L)) compiled_suffixes &&
+  match lookup_entry (name ++ ".py")%string L with Some (Dir _) => false | _ => true end &&
+  match lookup_entry name L with
+  | None => true
+  | Some (File _ _) => false
+  | Some (Dir inner) =>
+      forallb (fun s => negb (has_file ("__init__" ++ s)%string inner)) compiled_suffixes &&
+      match lookup_entry "__init__.py" inner with
+      | None => negb (has_entry "__init__.pyi" inner)          (* no stub-only package *)
+      | Some (File ns _) => negb ns                             (* no pkgutil-style declaration *)
+      | Some (Dir _) => false
+      end
+  end.
+
+Definition find_agree (f : found) (s : pyspec) : Prop :=
+  match f, s with
+  | FPkg p _, PyPkg init locs => p = init /\ locs = [(fst p, removelast (snd p))]
+  | FPkg p _, PyMod q => p = q
+  | FNs ds, PyNs ds' => ds = ds'
+  | FNone, PyNone => True
+  | _, _ => False
+  end.
+
+Lemma listing_at_root : forall U i, listing_at U (i, []) = Some (root U i).
+Proof. intros. unfold listing_at, node_at. simpl. reflexivity. Qed.
+
+Lemma has_file_entry : forall n L, has_file n L = true -> has_entry n L = true.
+Proof. intros n L. unfold has_file, has_entry. destruct (lookup_entry n L) as [[|]|]; auto. Qed.
+
+Lemma find_eq_gen :
+  forall U name paths nsacc all,
+  forallb (top_ok U name) paths = true ->
+  find_agree (g_find U name paths nsacc) (py_find_loop U name all (top_dirs paths) nsacc).
+Proof.
+  intros U name paths. induction paths as [|i r IH]; intros nsacc all Hok.
+  - simpl. destruct nsacc; simpl; auto.
+  - simpl in Hok. apply andb_true_iff in Hok. destruct Hok as [Hi Hr].
+    unfold top_ok in Hi. apply andb_true_iff in Hi. destruct Hi as [Hi Hdir].
+    apply andb_true_iff in Hi. destruct Hi as [Hcomp Hpy].
+    simpl in Hcomp. repeat rewrite andb_true_iff in Hcomp. destruct Hcomp as (C1 & C2 & C3 & C4 & _).
+    apply negb_true_iff in C1, C2, C3, C4.
+    simpl top_dirs. simpl py_find_loop. unfold file_finder. rewrite listing_at_root.
+    simpl g_find.
+    assert (Hmod : first_file_with name py_suffixes (root U i) =
+                   if has_entry (name ++ ".py")%string (root U i) then Some (name ++ ".py")%string else None).
+    { simpl. rewrite C1, C2, C3, C4.
+      unfold has_file, has_entry. destruct (lookup_entry (name ++ ".py")%string (root U i)) as [[|]|]; auto. discriminate. }
+    rewrite Hmod. clear Hmod.
+    destruct (lookup_entry name (root U i)) as [[ns pth|inner]|] eqn:Hname.
+    + discriminate.
+    + apply andb_true_iff in Hdir. destruct Hdir as [Hc2 Hinit].
+      simpl in Hc2. repeat rewrite andb_true_iff in Hc2. destruct Hc2 as (D1 & D2 & D3 & D4 & _).
+      apply negb_true_iff in D1, D2, D3, D4.
+      assert (Hff : first_file_with "__init__" py_suffixes inner =
+                    if has_file "__init__.py" inner then Some "__init__.py" else None).
+      { simpl. rewrite D1, D2, D3, D4. reflexivity. }
+      rewrite Hff. clear Hff. unfold has_file at 1.
+      destruct (lookup_entry "__init__.py" inner) as [[ns pth|?]|] eqn:Hinit_e.
+      * apply negb_true_iff in Hinit. subst ns.
+        unfold init_declares_ns, node_at, sub. cbn [fst snd app get_node].
+        rewrite Hname. cbn [get_node]. rewrite Hinit_e. cbn. auto.
+      * discriminate.
+      * apply negb_true_iff in Hinit. rewrite Hinit.
+        destruct (has_entry (name ++ ".py")%string (root U i)).
+        -- cbn. auto.
+        -- unfold sub. cbn [fst snd app]. apply IH. auto.
+    + destruct (has_entry (name ++ ".py")%string (root U i)).
+      * cbn. auto.
+      * apply IH. auto.
+Qed.
+
+Theorem find_eq_cpython :
+  forall U name paths,
+  forallb (top_ok U name) paths = true ->
+  find_agree (g_find U name paths []) (py_find U name (top_dirs paths)).
+Proof. intros. unfold py_find. apply find_eq_gen. auto. Qed.
+
+(* ------------------------------------------------------------------------------------------------------------- *)
+(* Part C.  The loader's fold over the depth-sorted submodule list, characterised key by key (regular top module) *)
+
+Lemma lookup_set_same : forall k v M, lookup_m k (set_m k v M) = Some v.
+Proof.
+  induction M as [|[k' w] r IH]; simpl.
+  - rewrite lstr_eqb_refl. auto.
+  - destruct (lstr_eqb k' k) eqn:E; simpl; rewrite E; auto.
+Qed.
+
+Lemma lookup_set_other : forall k k' v M, k' <> k -> lookup_m k' (set_m k v M) = lookup_m k' M.
+Proof.
+  induction M as [|[k0 w] r IH]; simpl; intro Hn.
+  - destruct (lstr_eqb k k') eqn:E; auto. apply lstr_eqb_eq in E. congruence.
+  - destruct (lstr_eqb k0 k) eqn:E; simpl.
+    + apply lstr_eqb_eq in E. subst k0.
+      destruct (lstr_eqb k k') eqn:E2; auto. apply lstr_eqb_eq in E2. congruence.
+    + destruct (lstr_eqb k0 k'); auto.
+Qed.
+
+Definition all_files (M : mstate) : Prop := forall k v, lookup_m k M = Some v -> exists p, v = MFile p.
+
+Fixpoint prefixes_present (M : mstate) (cur todo : list string) : bool :=
+  match todo with
+  | [] => true
+  | p :: r => match lookup_m (cur ++ [p]) M with Some _ => prefixes_present M (cur ++ [p]) r | None => false end
+  end.
+
+Lemma goc_regular : forall todo M cur k mfp, all_files M ->
+  goc M cur todo k mfp = (M, if prefixes_present M cur todo then Some (cur ++ todo) else None).
+Proof.
+  induction todo as [|p r IH]; intros M cur k mfp HM; simpl.
+  - rewrite app_nil_r. auto.
+  - destruct (lookup_m (cur ++ [p]) M) as [[q|ps]|] eqn:E.
+    + rewrite IH by auto. rewrite <- app_assoc. simpl. auto.
+    + apply HM in E. destruct E as [q E]. discriminate.
+    + destruct (lookup_m cur M) as [[q|ps]|] eqn:E2; auto.
+      apply HM in E2. destruct E2 as [q E2]. discriminate.
+Qed.
+
+Definition merge_path (old : option path) (newp : path) : path :=
+  match old with
+  | None => newp
+  | Some oldp => if path_eqb oldp newp then newp
+                 else if path_suffix oldp =? ".pyi" then newp
+                 else if path_suffix newp =? ".pyi" then oldp
+                 else newp
+  end.
+
+Definition file_of (o : option minfo) : option path :=
+  match o with Some (MFile p) => Some p | _ => None end.
+
+Lemma set_member_lookup_same : forall M key newp, all_files M ->
+  lookup_m key (set_member M key newp) = Some (MFile (merge_path (file_of (lookup_m key M)) newp)).
+Proof.
+  intros M key newp HM. unfold set_member.
+  destruct (lookup_m key M) as [[oldp|ps]|] eqn:E; simpl.
+  - destruct (path_eqb oldp newp). apply lookup_set_same.
+    destruct (path_suffix oldp =? ".pyi"). apply lookup_set_same.
+    destruct (path_suffix newp =? ".pyi"); auto. apply lookup_set_same.
+  - apply HM in E. destruct E as [q E]. discriminate.
+  - apply lookup_set_same.
+Qed.
+
+Lemma set_member_lookup_other : forall M key k newp, k <> key ->
+  lookup_m k (set_member M key newp) = lookup_m k M.
+Proof.
+  intros M key k newp Hn. unfold set_member.
+  destruct (lookup_m key M) as [[oldp|ps]|]; try (apply lookup_set_other; auto).
+  destruct (path_eqb oldp newp). apply lookup_set_other; auto.
+  destruct (path_suffix oldp =? ".pyi"). apply lookup_set_other; auto.
+  destruct (path_suffix newp =? ".pyi"); auto. apply lookup_set_other; auto.
+Qed.
+
+Lemma set_member_all_files : forall M key newp, all_files M -> all_files (set_member M key newp).
+Proof.
+  intros M key newp HM k v Hl.
+  destruct (lstr_eqb k key) eqn:E.
+  - apply lstr_eqb_eq in E. subst. rewrite set_member_lookup_same in Hl by auto. inversion Hl. eauto.
+  - apply lstr_eqb_neq in E. rewrite set_member_lookup_other in Hl by auto. eauto.
+Qed.
+
+Lemma removelast_last : forall (l : list string), l <> [] -> removelast l ++ [last l ""] = l.
+Proof. intros. symmetry. apply app_removelast_last. auto. Qed.
+
+Lemma load_entry_regular : forall M e, all_files M -> e_parts e <> [] ->
+  load_entry false M e =
+    if entry_ok e && prefixes_present M [] (removelast (e_parts e))
+    then set_member M (e_parts e) (e_abs e) else M.
+Proof.
+  intros M e HM Hne. unfold load_entry, entry_ok.
+  destruct (existsb has_dot (e_parts e)); simpl; auto.
+  rewrite goc_regular by auto.
+  destruct (prefixes_present M [] (removelast (e_parts e))); simpl.
+  - rewrite removelast_last by auto. rewrite orb_false_r.
+    destruct (static_loadable (e_abs e)); auto.
+  - rewrite andb_false_r. auto.
+Qed.
+
+(* ---- the declarative description ---- *)
+Definition cand (k : list string) (e : entry) : bool := lstr_eqb (e_parts e) k && entry_ok e.
+Definition cands (k : list string) (E : list entry) : list entry := filter (cand k) E.
+Definition has_cand (E : list entry) (k : list string) : bool := existsb (cand k) E.
+Definition pickseq (l : list entry) : option path := fold_left (fun o e => Some (merge_path o (e_abs e))) l None.
+
+Fixpoint chain (E : list entry) (cur todo : list string) : bool :=
+  match todo with
+  | [] => true
+  | p :: r => has_cand E (cur ++ [p]) && chain E (cur ++ [p]) r
+  end.
+
+Definition spec_lookup (top : path) (E : list entry) (k : list string) : option minfo :=
+  match k with
+  | [] => Some (MFile top)
+  | _ => if chain E [] k then option_map MFile (pickseq (cands k E)) else None
+  end.
+
+Definition sorted (E : list entry) : Prop :=
+  forall E1 e E2, E = E1 ++ e :: E2 -> forall x, In x E1 -> depth x <= depth e.
+
+Lemma sorted_snoc : forall E e, sorted (E ++ [e]) -> sorted E /\ forall x, In x E -> depth x <= depth e.
+Proof.
+  intros E e H. split.
+  - intros E1 a E2 Heq x Hx. apply (H E1 a (E2 ++ [e])); auto. rewrite Heq. rewrite <- app_assoc. auto.
+  - intros x Hx. apply (H E e []); auto.
+Qed.
+
+Lemma chain_app : forall E t1 c t2, chain E c (t1 ++ t2) = chain E c t1 && chain E (c ++ t1) t2.
+Proof.
+  induction t1 as [|p r IH]; intros; simpl.
+  - rewrite app_nil_r. auto.
+  - rewrite IH. rewrite <- app_assoc. simpl. rewrite andb_assoc. auto.
+Qed.
+
+Lemma chain_ext : forall E1 E2 todo cur,
+  (forall j, 0 < j <= List.length todo -> has_cand E1 (cur ++ firstn j todo) = has_cand E2 (cur ++ firstn j todo)) ->
+  chain E1 cur todo = chain E2 cur todo.
+Proof.
+  induction todo as [|p r IH]; intros cur H; simpl; auto.
+  pose proof (H 1) as H1. simpl in H1. rewrite H1 by lia. f_equal.
+  apply IH. intros j Hj. specialize (H (S j)). simpl in H. rewrite <- !app_assoc. simpl. apply H. lia.
+Qed.
+
+Lemma pickseq_nil_iff : forall l, pickseq l = None <-> l = [].
+Proof.
+  intros l. split; intro H; [|subst; auto].
+  destruct l as [|a r]; auto. exfalso.
+  destruct (exists_last (l := a :: r)) as (l' & z & Hl); [discriminate|].
+  rewrite Hl in H. unfold pickseq in H. rewrite fold_left_app in H. simpl in H. discriminate.
+Qed.
+
+Lemma pickseq_snoc : forall l e, pickseq (l ++ [e]) = Some (merge_path (pickseq l) (e_abs e)).
+Proof. intros. unfold pickseq. rewrite fold_left_app. auto. Qed.
+
+Lemma has_cand_cands : forall E k, has_cand E k = negb (match cands k E with [] => true | _ => false end).
+Proof.
+  induction E; intros; simpl; auto. unfold cands, has_cand in *. simpl.
+  destruct (cand k a); simpl; auto.
+Qed.
+
+Lemma has_cand_snoc : forall E e q, has_cand (E ++ [e]) q = has_cand E q || cand q e.
+Proof. intros. unfold has_cand. rewrite existsb_app. simpl. rewrite orb_false_r. auto. Qed.
+
+Lemma cands_snoc : forall E e q, cands q (E ++ [e]) = cands q E ++ (if cand q e then [e] else []).
+Proof. intros. unfold cands. rewrite filter_app. simpl. destruct (cand q e); auto. Qed.
+
+Lemma chain_last : forall E k, k <> [] -> chain E [] k = chain E [] (removelast k) && has_cand E k.
+Proof.
+  intros E k Hk. rewrite <- (removelast_last k Hk) at 1. rewrite chain_app. simpl.
+  rewrite removelast_last by auto. rewrite andb_true_r. auto.
+Qed.
+
+(* is_some (spec_lookup k) = chain k *)
+Lemma spec_lookup_some : forall top E k, (match spec_lookup top E k with Some _ => true | None => false end) = chain E [] k.
+Proof.
+  intros. destruct k as [|a r]; auto. unfold spec_lookup.
+  destruct (chain E [] (a :: r)) eqn:C; auto.
+  rewrite chain_last in C by discriminate. apply andb_true_iff in C. destruct C as [_ C].
+  rewrite has_cand_cands in C. destruct (cands (a :: r) E) eqn:Ec; try discriminate.
+  destruct (pickseq (e :: l)) eqn:P; auto. apply pickseq_nil_iff in P. discriminate.
+Qed.
+
+Lemma prefixes_present_chain : forall top E M,
+  (forall k, lookup_m k M = spec_lookup top E k) ->
+  forall todo cur, chain E [] cur = true -> prefixes_present M cur todo = chain E cur todo.
+Proof.
+  intros top E M HM. induction todo as [|p r IH]; intros cur Hc; simpl; auto.
+  pose proof (spec_lookup_some top E (cur ++ [p])) as Hs. rewrite <- HM in Hs.
+  rewrite chain_app in Hs. rewrite Hc in Hs. simpl in Hs. rewrite andb_true_r in Hs.
+  destruct (lookup_m (cur ++ [p]) M).
+  - rewrite <- Hs. simpl. apply IH. rewrite chain_app. rewrite Hc. simpl. rewrite <- Hs. auto.
+  - rewrite <- Hs. auto.
+Qed.
+
+Definition M0 (top : path) : mstate := [([], MFile top)].
+Definition run (top : path) (E : list entry) : mstate := fold_left (load_entry false) E (M0 top).
+
+Lemma cand_not_ok : forall q e, entry_ok e = false -> cand q e = false.
+Proof. intros. unfold cand. rewrite H. apply andb_false_r. Qed.
+
+Lemma length_removelast : forall (l : list string), l <> [] -> List.length l = S (List.length (removelast l)).
+Proof.
+  intros l H. rewrite (app_removelast_last "" H) at 1. rewrite app_length. simpl. lia.
+Qed.
+
+Lemma lstr_eqb_length : forall a b, lstr_eqb a b = true -> List.length a = List.length b.
+Proof. intros a b H. apply lstr_eqb_eq in H. subst. auto. Qed.
+
+Lemma spec_same_cands : forall top E1 E2 k,
+  (forall q, has_cand E1 q = has_cand E2 q) -> cands k E1 = cands k E2 ->
+  spec_lookup top E1 k = spec_lookup top E2 k.
+Proof.
+  intros top E1 E2 k Hh Hc. destruct k as [|a r]; auto. unfold spec_lookup.
+  rewrite Hc. rewrite (chain_ext E1 E2); auto.
+Qed.
+
+Lemma spec_not_ok : forall top E e k, entry_ok e = false -> spec_lookup top (E ++ [e]) k = spec_lookup top E k.
+Proof.
+  intros. apply spec_same_cands.
+  - intro q. rewrite has_cand_snoc, cand_not_ok; auto. apply orb_false_r.
+  - rewrite cands_snoc, cand_not_ok; auto. apply app_nil_r.
+Qed.
+
+Lemma chain_removelast_same : forall E e,
+  e_parts e <> [] ->
+  chain (E ++ [e]) [] (removelast (e_parts e)) = chain E [] (removelast (e_parts e)).
+Proof.
+  intros E e Hne. apply chain_ext. intros j Hj. simpl.
+  rewrite has_cand_snoc. unfold cand.
+  destruct (lstr_eqb (e_parts e) (firstn j (removelast (e_parts e)))) eqn:Eq.
+  - apply lstr_eqb_length in Eq. rewrite firstn_length in Eq.
+    pose proof (length_removelast _ Hne). lia.
+  - simpl. apply orb_false_r.
+Qed.
+
+Lemma spec_other : forall top E e k,
+  sorted (E ++ [e]) -> k <> e_parts e -> spec_lookup top (E ++ [e]) k = spec_lookup top E k.
+Proof.
+  intros top E e k Hs Hk. destruct k as [|a r]; auto.
+  assert (Hc : cands (a :: r) (E ++ [e]) = cands (a :: r) E).
+  { rewrite cands_snoc. unfold cand. destruct (lstr_eqb (e_parts e) (a :: r)) eqn:Eq.
+    - apply lstr_eqb_eq in Eq. congruence.
+    - simpl. apply app_nil_r. }
+  unfold spec_lookup. rewrite Hc.
+  destruct (cands (a :: r) E) as [|x l] eqn:Ec.
+  - change (pickseq []) with (@None path). destruct (chain (E ++ [e]) [] (a :: r)), (chain E [] (a :: r)); reflexivity.
+  - assert (Hx : In x (cands (a :: r) E)) by (rewrite Ec; left; auto).
+    unfold cands in Hx. apply filter_In in Hx. destruct Hx as [HxE Hxc].
+    unfold cand in Hxc. apply andb_true_iff in Hxc. destruct Hxc as [Hxp _]. apply lstr_eqb_eq in Hxp.
+    apply sorted_snoc in Hs. destruct Hs as [_ Hle]. specialize (Hle x HxE). unfold depth in Hle. rewrite Hxp in Hle.
+    rewrite (chain_ext (E ++ [e]) E); auto.
+    intros j Hj. simpl. rewrite has_cand_snoc. unfold cand.
+    destruct (lstr_eqb (e_parts e) (firstn j (a :: r))) eqn:Eq.
+    + exfalso. pose proof (lstr_eqb_length _ _ Eq) as Hlen. rewrite firstn_length in Hlen.
+      assert (j = List.length (a :: r)) by lia. subst j. rewrite firstn_all in Eq.
+      apply lstr_eqb_eq in Eq. congruence.
+    + simpl. apply orb_false_r.
+Qed.
+
+Lemma file_of_spec : forall top E k, k <> [] ->
+  file_of (spec_lookup top E k) = if chain E [] k then pickseq (cands k E) else None.
+Proof.
+  intros top E k Hk. destruct k; [congruence|]. unfold spec_lookup.
+  destruct (chain E [] (s :: k)); auto. destruct (pickseq (cands (s :: k) E)); auto.
+Qed.
+
+Theorem run_spec : forall top E,
+  sorted E -> (forall e, In e E -> e_parts e <> []) ->
+  all_files (run top E) /\ forall k, lookup_m k (run top E) = spec_lookup top E k.
+Proof.
+  intros top E. induction E as [|e E IH] using rev_ind; intros Hs Hne.
+  - split.
+    + intros k v H. unfold run, M0 in H. simpl in H. destruct k; inversion H. eauto.
+    + intros k. unfold run, M0. simpl. destruct k; auto.
+  - pose proof (sorted_snoc _ _ Hs) as [HsE _].
+    assert (HneE : forall x, In x E -> e_parts x <> []) by (intros; apply Hne; apply in_or_app; auto).
+    destruct (IH HsE HneE) as [Haf Hlk]. clear IH.
+    assert (Hpe : e_parts e <> []) by (apply Hne; apply in_or_app; right; left; auto).
+    unfold run in *. rewrite fold_left_app. simpl.
+    set (M := fold_left (load_entry false) E (M0 top)) in *.
+    rewrite load_entry_regular by auto.
+    rewrite (prefixes_present_chain top E M Hlk) by auto.
+    destruct (entry_ok e) eqn:Hok; simpl.
+    + destruct (chain E [] (removelast (e_parts e))) eqn:Hpp.
+      * split. apply set_member_all_files; auto.
+        intro k. destruct (lstr_eqb k (e_parts e)) eqn:Ek.
+        -- apply lstr_eqb_eq in Ek. subst k.
+           rewrite set_member_lookup_same by auto. rewrite Hlk.
+           rewrite file_of_spec by auto.
+           destruct (e_parts e) as [|a r] eqn:Epe; [congruence|]. rewrite <- Epe in *.
+           replace (spec_lookup top (E ++ [e]) (e_parts e)) with
+             (if chain (E ++ [e]) [] (e_parts e) then option_map MFile (pickseq (cands (e_parts e) (E ++ [e]))) else None)
+             by (rewrite Epe; reflexivity).
+           rewrite (chain_last (E ++ [e])) by auto. rewrite chain_removelast_same by auto. rewrite Hpp.
+           rewrite has_cand_snoc. unfold cand. rewrite lstr_eqb_refl, Hok. rewrite orb_true_r. simpl.
+           rewrite cands_snoc. unfold cand. rewrite lstr_eqb_refl, Hok. simpl.
+           rewrite pickseq_snoc. simpl.
+           rewrite (chain_last E) by auto. rewrite Hpp. simpl.
+           rewrite has_cand_cands. destruct (cands (e_parts e) E); simpl; auto.
+        -- apply lstr_eqb_neq in Ek. rewrite set_member_lookup_other by auto.
+           rewrite Hlk. symmetry. apply spec_other; auto.
+      * split; auto. intro k. rewrite Hlk.
+        destruct (lstr_eqb k (e_parts e)) eqn:Ek.
+        -- apply lstr_eqb_eq in Ek. subst k.
+           destruct (e_parts e) as [|a r] eqn:Epe; [congruence|]. rewrite <- Epe in *.
+           assert (forall E', spec_lookup top E' (e_parts e) =
+                     if chain E' [] (e_parts e) then option_map MFile (pickseq (cands (e_parts e) E')) else None) as Hunf
+             by (intro; rewrite Epe; reflexivity).
+           rewrite !Hunf. rewrite (chain_last (E ++ [e])), (chain_last E) by auto.
+           rewrite chain_removelast_same by auto. rewrite Hpp. auto.
+        -- apply lstr_eqb_neq in Ek. symmetry. apply spec_other; auto.
+    + split; auto. intro k. rewrite Hlk. symmetry. apply spec_not_ok. auto.
+Qed.
+
+(* ------------------------------------------------------------------------------------------------------------- *)
+(* Part D.  The result depends on the SET of submodule entries only, provided no two files claim one module name *)
+
+(* two candidates of one name are the same file, or a regular module and its stubs *)
+Definition compat (l : list entry) : Prop :=
+  forall a b, In a l -> In b l -> is_pyi a = is_pyi b -> e_abs a = e_abs b.
+
+Definition pick_rel (l : list entry) (p : path) : Prop :=
+  (exists a, In a l /\ is_pyi a = false /\ e_abs a = p) \/
+  ((forall a, In a l -> is_pyi a = true) /\ exists a, In a l /\ e_abs a = p).
+
+Lemma compat_app_l : forall l1 l2, compat (l1 ++ l2) -> compat l1.
+Proof. intros l1 l2 H a b Ha Hb. apply H; apply in_or_app; auto. Qed.
+
+Lemma pickseq_sound : forall l p, compat l -> pickseq l = Some p -> pick_rel l p.
+Proof.
+  induction l as [|e l IH] using rev_ind; intros p Hc Hp.
+  - discriminate.
+  - rewrite pickseq_snoc in Hp. inversion Hp as [Hm]. clear Hp.
+    assert (Hin_e : In e (l ++ [e])) by (apply in_or_app; right; left; auto).
+    destruct (pickseq l) as [old|] eqn:Hold.
+    + specialize (IH old (compat_app_l _ _ Hc) eq_refl).
+      unfold merge_path.
+      destruct (path_eqb old (e_abs e)) eqn:Heq.
+      * apply path_eqb_eq in Heq.
+        destruct (is_pyi e) eqn:He.
+        -- right. split.
+           ++ intros a Ha. apply in_app_or in Ha. destruct Ha as [Ha|[Ha|[]]]; [|subst; auto].
+              destruct IH as [(b & Hb & Hbp & Hbo)|[Hall _]]; [|auto].
+              exfalso. unfold is_pyi in *. rewrite Hbo, Heq in Hbp. congruence.
+           ++ exists e. auto.
+        -- left. exists e. auto.
+      * destruct (path_suffix old =? ".pyi") eqn:Hop.
+        -- destruct IH as [(b & Hb & Hbp & Hbo)|[Hall (b & Hb & Hbo)]].
+           ++ exfalso. unfold is_pyi in Hbp. rewrite Hbo in Hbp. congruence.
+           ++ destruct (is_pyi e) eqn:He.
+              ** exfalso. assert (e_abs b = e_abs e).
+                 { apply Hc; auto. apply in_or_app; auto. rewrite He. auto. }
+                 assert (Hoe : old = e_abs e) by congruence. rewrite Hoe in Heq. rewrite path_eqb_refl in Heq. discriminate.
+              ** left. exists e. auto.
+        -- destruct IH as [(b & Hb & Hbp & Hbo)|[Hall (b & Hb & Hbo)]].
+           ++ destruct (path_suffix (e_abs e) =? ".pyi") eqn:He.
+              ** left. exists b. split; [apply in_or_app; auto|auto].
+              ** exfalso. assert (e_abs b = e_abs e).
+                 { apply Hc; auto. apply in_or_app; auto. unfold is_pyi. rewrite He. auto. }
+                 assert (Hoe : old = e_abs e) by congruence. rewrite Hoe in Heq. rewrite path_eqb_refl in Heq. discriminate.
+           ++ exfalso. specialize (Hall b Hb). unfold is_pyi in Hall. rewrite Hbo in Hall. congruence.
+    + apply pickseq_nil_iff in Hold. subst l. simpl in *.
+      destruct (is_pyi e) eqn:He.
+      * right. split. intros a [Ha|[]]; subst; auto. exists e. auto.
+      * left. exists e. auto.
+Qed.
+
+Lemma pick_rel_fun : forall l p q, compat l -> pick_rel l p -> pick_rel l q -> p = q.
+Proof.
+  intros l p q Hc [(a & Ha & Hap & Hao)|[Hall (a & Ha & Hao)]] [(b & Hb & Hbp & Hbo)|[Hall' (b & Hb & Hbo)]].
+  - subst. apply Hc; auto. congruence.
+  - specialize (Hall' a Ha). congruence.
+  - specialize (Hall b Hb). congruence.
+  - subst. apply Hc; auto. rewrite Hall, Hall'; auto.
+Qed.
+
+Lemma pick_rel_same : forall l1 l2 p, (forall x, In x l1 <-> In x l2) -> pick_rel l1 p -> pick_rel l2 p.
+Proof.
+  intros l1 l2 p H [(a & Ha & Hap & Hao)|[Hall (a & Ha & Hao)]].
+  - left. exists a. split; auto. apply H; auto.
+  - right. split. intros b Hb. apply Hall. apply H; auto. exists a. split; auto. apply H; auto.
+Qed.
+
+Lemma pickseq_same : forall l1 l2, compat l1 -> (forall x, In x l1 <-> In x l2) -> pickseq l1 = pickseq l2.
+Proof.
+  intros l1 l2 Hc H.
+  assert (Hc2 : compat l2) by (intros a b Ha Hb; apply Hc; apply H; auto).
+  destruct (pickseq l1) as [p|] eqn:P1; destruct (pickseq l2) as [q|] eqn:P2; auto.
+  - f_equal. apply (pick_rel_fun l2); auto.
+    + apply (pick_rel_same l1); auto. apply pickseq_sound; auto.
+    + apply pickseq_sound; auto.
+  - apply pickseq_nil_iff in P2. subst l2. destruct l1 as [|a r]; [discriminate|].
+    exfalso. apply (H a). left; auto.
+  - apply pickseq_nil_iff in P1. subst l1. destruct l2 as [|a r]; [discriminate|].
+    exfalso. apply (H a). left; auto.
+Qed.
+
+Definition same_elems (E1 E2 : list entry) : Prop := forall x, In x E1 <-> In x E2.
+
+Definition no_clash (E : list entry) : Prop :=
+  forall a b, In a E -> In b E -> entry_ok a = true -> entry_ok b = true -> e_parts a = e_parts b ->
+              is_pyi a = is_pyi b -> e_abs a = e_abs b.
+
+Lemma has_cand_same : forall E1 E2 q, same_elems E1 E2 -> has_cand E1 q = has_cand E2 q.
+Proof.
+  intros E1 E2 q H. unfold has_cand.
+  destruct (existsb (cand q) E1) eqn:A; destruct (existsb (cand q) E2) eqn:B; auto.
+  - apply existsb_exists in A. destruct A as (x & Hx & Hc).
+    assert (existsb (cand q) E2 = true) by (apply existsb_exists; exists x; split; auto; apply H; auto). congruence.
+  - apply existsb_exists in B. destruct B as (x & Hx & Hc).
+    assert (existsb (cand q) E1 = true) by (apply existsb_exists; exists x; split; auto; apply H; auto). congruence.
+Qed.
+
+Theorem spec_order_invariant : forall top E1 E2,
+  same_elems E1 E2 -> no_clash E1 -> forall k, spec_lookup top E1 k = spec_lookup top E2 k.
+Proof.
+  intros top E1 E2 Hs Hn k. destruct k as [|a r]; auto. unfold spec_lookup.
+  rewrite (chain_ext E1 E2) by (intros; apply has_cand_same; auto).
+  destruct (chain E2 [] (a :: r)); auto. f_equal.
+  apply pickseq_same.
+  - intros x y Hx Hy Hp. unfold cands in Hx, Hy. apply filter_In in Hx, Hy.
+    destruct Hx as [Hx Hcx], Hy as [Hy Hcy]. unfold cand in Hcx, Hcy.
+    apply andb_true_iff in Hcx, Hcy. destruct Hcx as [Px Ox], Hcy as [Py Oy].
+    apply lstr_eqb_eq in Px, Py. apply Hn; auto. congruence.
+  - intro x. unfold cands. rewrite !filter_In. split; intros [Hx Hc]; split; auto; apply Hs; auto.
+Qed.
+
+Theorem run_order_invariant : forall top E1 E2,
+  sorted E1 -> sorted E2 -> (forall e, In e E1 -> e_parts e <> []) ->
+  same_elems E1 E2 -> no_clash E1 ->
+  forall k, lookup_m k (run top E1) = lookup_m k (run top E2).
+Proof.
+  intros top E1 E2 S1 S2 Hne Hs Hn k.
+  destruct (run_spec top E1 S1 Hne) as [_ H1].
+  destruct (run_spec top E2 S2) as [_ H2]. { intros e He. apply Hne. apply Hs. auto. }
+  rewrite H1, H2. apply spec_order_invariant; auto.
+Qed.
+
+(* depth_sort: sorted, same elements *)
+Lemma max_depth_ge : forall l x, In x l -> depth x <= max_depth l.
+Proof.
+  induction l; simpl; intros x H; [contradiction|]. destruct H as [H|H]; subst. lia. specialize (IHl x H). lia.
+Qed.
+
+Lemma depth_sort_In : forall l x, In x (depth_sort l) <-> In x l.
+Proof.
+  intros l x. unfold depth_sort. rewrite in_flat_map. split.
+  - intros (d & _ & Hx). apply filter_In in Hx. tauto.
+  - intro Hx. exists (depth x). split.
+    + apply in_seq. pose proof (max_depth_ge l x Hx). lia.
+    + apply filter_In. split; auto. apply Nat.eqb_refl.
+Qed.
+
+Lemma sorted_levels : forall l ds,
+  StronglySorted lt ds ->
+  forall E1 e E2, flat_map (fun d => filter (fun x => (depth x =? d)%nat) l) ds = E1 ++ e :: E2 ->
+  forall x, In x E1 -> depth x <= depth e.
+Proof.
+  intros l ds Hds. induction Hds as [|d ds Hs IH Hall]; intros E1 e E2 Heq x Hx.
+  - simpl in Heq. destruct E1; discriminate.
+  - simpl in Heq.
+    assert (Hfront : forall y, In y (filter (fun x => (depth x =? d)%nat) l) -> depth y = d).
+    { intros y Hy. apply filter_In in Hy. destruct Hy as [_ Hy]. apply Nat.eqb_eq in Hy. auto. }
+    assert (Hback : forall y, In y (flat_map (fun d => filter (fun x => (depth x =? d)%nat) l) ds) -> d < depth y).
+    { intros y Hy. apply in_flat_map in Hy. destruct Hy as (d' & Hd' & Hy). apply filter_In in Hy. destruct Hy as [_ Hy].
+      apply Nat.eqb_eq in Hy. rewrite Forall_forall in Hall. specialize (Hall d' Hd'). lia. }
+    remember (filter (fun x => (depth x =? d)%nat) l) as A. remember (flat_map (fun d => filter (fun x => (depth x =? d)%nat) l) ds) as B.
+    (* where does e fall? *)
+    assert (Hsplit : (exists A2, A = E1 ++ e :: A2 /\ E2 = A2 ++ B) \/ (exists B1, E1 = A ++ B1 /\ B = B1 ++ e :: E2)).
+    { clear -Heq. revert E1 Heq. induction A as [|a A IHA]; intros E1 Heq; simpl in *.
+      - right. exists E1. auto.
+      - destruct E1 as [|z E1]; simpl in *.
+        + inversion Heq; subst. left. exists A. auto.
+        + inversion Heq; subst. destruct (IHA E1 H1) as [(A2 & -> & ->)|(B1 & -> & ->)].
+          * left. exists A2. auto.
+          * right. exists B1. auto. }
+    destruct Hsplit as [(A2 & HA & _)|(B1 & HE1 & HB)].
+    + assert (In x A) by (rewrite HA; apply in_or_app; auto).
+      assert (In e A) by (rewrite HA; apply in_or_app; right; left; auto).
+      rewrite (Hfront x), (Hfront e); auto.
+    + rewrite HE1 in Hx. apply in_app_or in Hx. destruct Hx as [Hx|Hx].
+      * assert (In e B) by (rewrite HB; apply in_or_app; right; left; auto).
+        rewrite (Hfront x Hx). specialize (Hback e H). lia.
+      * apply (IH B1 e E2); auto.
+Qed.
+
+Lemma seq_sorted : forall n s, StronglySorted lt (seq s n).
+Proof.
+  induction n; intros; simpl; constructor; auto.
+  apply Forall_forall. intros x Hx. apply in_seq in Hx. lia.
+Qed.
+
+Lemma depth_sort_sorted : forall l, sorted (depth_sort l).
+Proof.
+  intros l E1 e E2 Heq x Hx. unfold depth_sort in Heq.
+  eapply sorted_levels; eauto. apply seq_sorted.
+Qed.
+
+(* ------------------------------------------------------------------------------------------------------------- *)
+(* Part E.  Permuting directory listings *)
+
+Inductive perm_node : node -> node -> Prop :=
+| PN_refl : forall x, perm_node x x
+| PN_dir : forall es es', perm_listing es es' -> perm_node (Dir es) (Dir es')
+with perm_listing : listing -> listing -> Prop :=
+| PL_refl : forall l, perm_listing l l
+| PL_cons : forall n x y l l', perm_node x y -> perm_listing l l' -> perm_listing ((n, x) :: l) ((n, y) :: l')
+| PL_swap : forall a b l, perm_listing (a :: b :: l) (b :: a :: l)
+| PL_trans : forall l1 l2 l3, perm_listing l1 l2 -> perm_listing l2 l3 -> perm_listing l1 l3.
+
+Scheme perm_node_mut := Minimality for perm_node Sort Prop
+  with perm_listing_mut := Minimality for perm_listing Sort Prop.
+
+(* what one directory entry contributes to os.walk *)
+Definition contrib (pre : list string) (e : string * node) : list (list string) :=
+  (if is_file (snd e) && accepted (fst e) then [pre ++ [fst e]] else []) ++
+  (let '(nm, x) := e in
+   match x with
+   | Dir _ => if nm =? "__pycache__" then [] else walk (pre ++ [nm]) x
+   | File _ _ => []
+   end).
+
+Lemma walk_dir_in : forall pre es r,
+  In r (walk pre (Dir es)) <-> exists e, In e es /\ In r (contrib pre e).
+Proof.
+  intros pre es r. simpl. rewrite in_app_iff. unfold walk_files. rewrite !in_flat_map. unfold contrib. split.
+  - intros [(e & He & Hr)|(e & He & Hr)]; exists e; split; auto; apply in_or_app; [left|right]; auto.
+  - intros (e & He & Hr). apply in_app_or in Hr. destruct Hr as [Hr|Hr]; [left|right]; exists e; auto.
+Qed.
+
+Lemma walk_perm : forall x y, perm_node x y ->
+  is_file x = is_file y /\ forall pre r, In r (walk pre x) <-> In r (walk pre y).
+Proof.
+  apply (perm_node_mut
+    (fun x y => is_file x = is_file y /\ forall pre r, In r (walk pre x) <-> In r (walk pre y))
+    (fun l l' => forall pre r, (exists e, In e l /\ In r (contrib pre e)) <-> (exists e, In e l' /\ In r (contrib pre e)))).
+  - intros. split; tauto.
+  - intros es es' _ H. split; auto. intros. rewrite !walk_dir_in. apply H.
+  - intros. tauto.
+  - intros n x y l l' _ [Hk Hw] _ Hl pre r.
+    assert (Hc : In r (contrib pre (n, x)) <-> In r (contrib pre (n, y))).
+    { unfold contrib. simpl. rewrite !in_app_iff. rewrite Hk.
+      destruct x, y; simpl in Hk; try discriminate; try tauto.
+      destruct (n =? "__pycache__"); [tauto|]. rewrite (Hw (pre ++ [n]) r). tauto. }
+    split; intros (e & [He|He] & Hr).
+    + subst e. exists (n, y). split; [left; auto|]. apply Hc; auto.
+    + destruct (proj1 (Hl pre r)) as (e' & He' & Hr'). exists e; auto. exists e'. split; [right|]; auto.
+    + subst e. exists (n, x). split; [left; auto|]. apply Hc; auto.
+    + destruct (proj2 (Hl pre r)) as (e' & He' & Hr'). exists e; auto. exists e'. split; [right|]; auto.
+  - intros a b l pre r. split; intros (e & He & Hr); exists e; split; auto; simpl in *; tauto.
+  - intros l1 l2 l3 _ H12 _ H23 pre r. rewrite H12. apply H23.
+Qed.
+
+(* looking a name up in a permuted listing (names are unique in a directory) *)
+Definition rel_opt (a b : option node) : Prop :=
+  match a, b with
+  | Some x, Some y => perm_node x y
+  | None, None => True
+  | _, _ => False
+  end.
+
+Lemma lookup_entry_notin : forall n l, ~ In n (map fst l) -> lookup_entry n l = None.
+Proof.
+  induction l as [|[k v] r IH]; simpl; intro H; auto.
+  destruct (k =? n) eqn:E. apply String.eqb_eq in E. subst. tauto. apply IH. tauto.
+Qed.
+
+Lemma lookup_perm : forall l l', perm_listing l l' ->
+  Permutation (map fst l) (map fst l') /\
+  (NoDup (map fst l) -> forall n, rel_opt (lookup_entry n l) (lookup_entry n l')).
+Proof.
+  apply (perm_listing_mut (fun x y => perm_node x y)
+    (fun l l' => Permutation (map fst l) (map fst l') /\
+                 (NoDup (map fst l) -> forall n, rel_opt (lookup_entry n l) (lookup_entry n l')))).
+  - apply PN_refl.
+  - intros. apply PN_dir. auto.
+  - intros l. split; auto. intros _ n. destruct (lookup_entry n l); simpl; auto. apply PN_refl.
+  - intros n x y l l' Hxy _ _ [Hp Hl]. split. simpl. auto.
+    intros Hnd k. simpl in *. inversion Hnd; subst.
+    destruct (n =? k); simpl; auto.
+  - intros [na xa] [nb xb] l. split. simpl. apply perm_swap.
+    intros Hnd k. simpl in *. inversion Hnd as [|? ? Hna Hnd']; subst. simpl in Hna.
+    destruct (na =? k) eqn:Ea; destruct (nb =? k) eqn:Eb; simpl; try apply PN_refl.
+    + apply String.eqb_eq in Ea, Eb. subst. exfalso. apply Hna. left; auto.
+    + destruct (lookup_entry k l); simpl; auto. apply PN_refl.
+  - intros l1 l2 l3 _ [P12 H12] _ [P23 H23]. split. eapply perm_trans; eauto.
+    intros Hnd k. specialize (H12 Hnd k).
+    assert (Hnd2 : NoDup (map fst l2)) by (eapply Permutation_NoDup; eauto).
+    specialize (H23 Hnd2 k).
+    destruct (lookup_entry k l1), (lookup_entry k l2), (lookup_entry k l3); simpl in *; try tauto.
+    (* transitivity of perm_node *)
+    clear -H12 H23. revert n1 H23. induction H12; intros; auto.
+    inversion H23; subst. apply PN_dir; auto. apply PN_dir. eapply PL_trans; eauto.
+Qed.
+
+Inductive wf_node : node -> Prop :=
+| WF_file : forall a b, wf_node (File a b)
+| WF_dir : forall es, NoDup (map fst es) -> (forall n x, In (n, x) es -> wf_node x) -> wf_node (Dir es).
+
+Lemma lookup_entry_In : forall n l x, lookup_entry n l = Some x -> exists k, In (k, x) l.
+Proof.
+  induction l as [|[k v] r IH]; simpl; intros x H; [discriminate|].
+  destruct (k =? n). inversion H; subst. eauto. destruct (IH x H) as [k' Hk]. eauto.
+Qed.
+
+Lemma perm_node_file_inv : forall a b y, perm_node (File a b) y -> y = File a b.
+Proof. intros. inversion H; auto. Qed.
+
+Lemma perm_node_dir_inv : forall l y, perm_node (Dir l) y -> exists l', y = Dir l' /\ perm_listing l l'.
+Proof. intros. inversion H; subst. exists l. split; auto. apply PL_refl. eauto. Qed.
+
+Lemma get_node_perm : forall comps l l', perm_listing l l' -> wf_node (Dir l) ->
+  rel_opt (get_node l comps) (get_node l' comps).
+Proof.
+  induction comps as [|c r IH]; intros l l' Hp Hwf; simpl.
+  - apply PN_dir. auto.
+  - inversion Hwf as [|es Hnd Hsub]; subst.
+    pose proof (proj2 (lookup_perm l l' Hp) Hnd c) as Hl.
+    destruct (lookup_entry c l) as [x|] eqn:E1; destruct (lookup_entry c l') as [y|] eqn:E2; simpl in Hl; try tauto.
+    destruct x as [a b|l1].
+    + apply perm_node_file_inv in Hl. subst y. destruct r; simpl; auto. apply PN_refl.
+    + apply perm_node_dir_inv in Hl. destruct Hl as (l1' & -> & Hl1).
+      apply IH; auto. destruct (lookup_entry_In _ _ _ E1) as [k Hk]. eapply Hsub; eauto.
+Qed.
+
+Definition perm_universe (U U' : universe) : Prop :=
+  Forall2 (fun a b => fst a = fst b /\ perm_listing (snd a) (snd b)) U U'.
+Definition wf_universe (U : universe) : Prop := forall i l, In (i, l) U -> wf_node (Dir l).
+
+Lemma root_perm : forall U U' i, perm_universe U U' -> perm_listing (root U i) (root U' i).
+Proof.
+  intros U U' i H. unfold root. induction H as [|[j l] [j' l'] U U' [Hj Hl] _ IH]; simpl.
+  - apply PL_refl.
+  - simpl in Hj, Hl. subst j'. destruct (j =? i)%nat; auto.
+Qed.
+
+Lemma lookup_nat_In : forall (U : universe) i l, lookup_nat i U = Some l -> In (i, l) U.
+Proof.
+  induction U as [|[j m] r IH]; simpl; intros i l H; [discriminate|].
+  destruct (j =? i)%nat eqn:E. apply Nat.eqb_eq in E. inversion H; subst. auto. right. auto.
+Qed.
+
+Lemma root_wf : forall U i, wf_universe U -> wf_node (Dir (root U i)).
+Proof.
+  intros U i H. unfold root. destruct (lookup_nat i U) eqn:E.
+  - apply lookup_nat_In in E. eapply H; eauto.
+  - constructor. constructor. intros ? ? [].
+Qed.
+
+Lemma node_at_perm : forall U U' p, perm_universe U U' -> wf_universe U ->
+  rel_opt (node_at U p) (node_at U' p).
+Proof.
+  intros. unfold node_at. apply get_node_perm. apply root_perm; auto. apply root_wf; auto.
+Qed.
+
+Lemma portion_files_perm : forall U U' d, perm_universe U U' -> wf_universe U ->
+  forall r, In r (portion_files U d) <-> In r (portion_files U' d).
+Proof.
+  intros U U' d Hp Hw r. unfold portion_files.
+  pose proof (node_at_perm U U' d Hp Hw) as H.
+  destruct (node_at U d), (node_at U' d); simpl in H; try tauto.
+  apply walk_perm; auto.
+Qed.
+
+(* iter_submodules of a regular package as a set *)
+Definition yields (base : path) (rel : list string) (e : entry) : Prop :=
+  match name_to_yield rel with
+  | YInit parts | YMod parts => e = mkE parts base rel
+  | _ => False
+  end.
+
+Lemma iter_files_noskip : forall base files seen,
+  match iter_files base [] files seen with
+  | Ok (es, _) => (forall rel, In rel files -> name_to_yield rel <> YErr) /\
+                  (forall e, In e es <-> exists rel, In rel files /\ yields base rel e)
+  | Err x => x = "ValueError" /\ exists rel, In rel files /\ name_to_yield rel = YErr
+  end.
+Proof.
+  intros base files. induction files as [|rel r IH]; intros seen; simpl.
+  - split. intros ? []. intros e. split. intros []. intros (rel & [] & _).
+  - unfold yields in *. destruct (name_to_yield rel) as [|parts|parts|] eqn:Ey.
+    + specialize (IH seen). destruct (iter_files base [] r seen) as [[es s]|x].
+      * destruct IH as [H1 H2]. split.
+        -- intros rel' [<-|H]; auto. congruence.
+        -- intro e. rewrite H2. split; intros (rel' & Hr & Hy).
+           ++ exists rel'. auto.
+           ++ destruct Hr as [<-|Hr]. rewrite Ey in Hy. contradiction. eauto.
+      * destruct IH as [H1 (rel' & Hr & Hy)]. split; auto. exists rel'. auto.
+    + specialize (IH (seen ++ [removelast rel])). destruct (iter_files base [] r (seen ++ [removelast rel])) as [[es s]|x].
+      * destruct IH as [H1 H2]. split.
+        -- intros rel' [<-|H]; auto. congruence.
+        -- intro e. simpl. rewrite H2. split.
+           ++ intros [<-|(rel' & Hr & Hy)]. exists rel. rewrite Ey. auto. exists rel'. auto.
+           ++ intros (rel' & [<-|Hr] & Hy). rewrite Ey in Hy. auto. right. eauto.
+      * destruct IH as [H1 (rel' & Hr & Hy)]. split; auto. exists rel'. auto.
+    + specialize (IH seen). destruct (iter_files base [] r seen) as [[es s]|x].
+      * destruct IH as [H1 H2]. split.
+        -- intros rel' [<-|H]; auto. congruence.
+        -- intro e. simpl. rewrite H2. split.
+           ++ intros [<-|(rel' & Hr & Hy)]. exists rel. rewrite Ey. auto. exists rel'. auto.
+           ++ intros (rel' & [<-|Hr] & Hy). rewrite Ey in Hy. auto. right. eauto.
+      * destruct IH as [H1 (rel' & Hr & Hy)]. split; auto. exists rel'. auto.
+    + split; auto. exists rel. auto.
+Qed.
+
+Section NodeInd.
+  Variable P : node -> Prop.
+  Hypothesis Hf : forall a b, P (File a b).
+  Hypothesis Hd : forall es, (forall n x, In (n, x) es -> P x) -> P (Dir es).
+  Fixpoint node_ind' (n : node) : P n :=
+    match n with
+    | File a b => Hf a b
+    | Dir es => Hd es ((fix go (l : listing) : forall n x, In (n, x) l -> P x :=
+                          match l with
+                          | [] => fun n x H => False_ind _ H
+                          | (k, v) :: r => fun n x H =>
+                              match H with
+                              | or_introl E => eq_ind v P (node_ind' v) x (f_equal snd E)
+                              | or_intror H' => go r n x H'
+                              end
+                          end) es)
+    end.
+End NodeInd.
+
+Lemma walk_nonempty : forall n pre r, In r (walk pre n) -> r <> [].
+Proof.
+  induction n as [a b|es IH] using node_ind'; intros pre r H. simpl in H. contradiction.
+  apply walk_dir_in in H. destruct H as ([nm x] & He & Hr). unfold contrib in Hr. simpl in Hr.
+  apply in_app_or in Hr. destruct Hr as [Hr|Hr].
+  - destruct (is_file x && accepted nm); simpl in Hr; [|contradiction]. destruct Hr as [<-|[]]. destruct pre; discriminate.
+  - destruct x as [a b|es']; [contradiction|]. destruct (nm =? "__pycache__"); [contradiction|].
+    eapply IH; eauto.
+Qed.
+
+Lemma yields_parts_nonempty : forall base rel e, rel <> [] -> yields base rel e -> e_parts e <> [].
+Proof.
+  intros base rel e Hrel Hy. unfold yields, name_to_yield in Hy.
+  set (stem := if pl_suffix (last rel "") =? ".py" then pl_stem (last rel "") else before_first_dot (pl_stem (last rel ""))) in *.
+  destruct (stem =? "__init__").
+  - destruct (List.length rel =? 1)%nat eqn:El; [contradiction|]. subst e. simpl.
+    destruct rel as [|a [|b r]]; try congruence. simpl in El. discriminate. simpl. discriminate.
+  - destruct (pl_suffix (last rel "") =? ".py").
+    + subst e. simpl. destruct (removelast rel); discriminate.
+    + destruct (stem =? ""); [contradiction|]. subst e. simpl. destruct (removelast rel); discriminate.
+Qed.
+
+Lemma no_clashb_sound : forall E, no_clashb E = true -> no_clash E.
+Proof.
+  intros E H a b Ha Hb Oa Ob Hp Hi. unfold no_clashb in H. rewrite forallb_forall in H.
+  specialize (H a Ha). rewrite forallb_forall in H. specialize (H b Hb).
+  rewrite Oa, Ob, Hp, lstr_eqb_refl, Hi, Bool.eqb_reflx in H. simpl in H. apply path_eqb_eq. auto.
+Qed.
+
+Definition same_tree (a b : loaded) : Prop :=
+  match a, b with
+  | LOk M, LOk M' => forall k, lookup_m k M = lookup_m k M'
+  | LErr x, LErr y => x = y
+  | LNotFound, LNotFound => True
+  | _, _ => False
+  end.
+
+Theorem listing_order_invariant_regular :
+  forall U U' p st,
+  perm_universe U U' -> wf_universe U ->
+  (forall es, iter_regular U p = Ok es -> no_clash es) ->
+  same_tree (load_found false U (FPkg p st)) (load_found false U' (FPkg p st)).
+Proof.
+  intros U U' p st Hp Hw Hnc. unfold load_found.
+  pose proof (node_at_perm U U' p Hp Hw) as Hn.
+  destruct (node_at U p) as [[a b|l]|]; destruct (node_at U' p) as [y|]; simpl in Hn; try tauto;
+    try (apply perm_node_file_inv in Hn; subst y); try (apply perm_node_dir_inv in Hn; destruct Hn as (l' & -> & _));
+    simpl; auto.
+  unfold iter_regular in *. destruct (start_dir p) as [d|]; simpl.
+  - pose proof (portion_files_perm U U' d Hp Hw) as Hf.
+    pose proof (iter_files_noskip d (portion_files U d) []) as H1.
+    pose proof (iter_files_noskip d (portion_files U' d) []) as H2.
+    destruct (iter_files d [] (portion_files U d) []) as [[es s]|x];
+    destruct (iter_files d [] (portion_files U' d) []) as [[es' s']|x'].
+    + destruct H1 as [_ H1], H2 as [_ H2]. simpl.
+      assert (Hse : same_elems es es').
+      { intro e. rewrite H1, H2. split; intros (rel & Hr & Hy); exists rel; split; auto; apply Hf; auto. }
+      apply (run_order_invariant p (depth_sort es) (depth_sort es')).
+      * apply depth_sort_sorted.
+      * apply depth_sort_sorted.
+      * intros e He. apply (proj1 (depth_sort_In _ _)) in He. apply (proj1 (H1 e)) in He. destruct He as (rel & Hr & Hy).
+        eapply yields_parts_nonempty; eauto. unfold portion_files in Hr.
+        destruct (node_at U d); [|contradiction]. eapply walk_nonempty; eauto.
+      * intro e. rewrite !depth_sort_In. apply Hse.
+      * specialize (Hnc es eq_refl). intros x y Hx Hy. apply (proj1 (depth_sort_In _ _)) in Hx. apply (proj1 (depth_sort_In _ _)) in Hy. apply Hnc; auto.
+    + exfalso. destruct H1 as [H1 _]. destruct H2 as [_ (rel & Hr & Hy)]. apply (H1 rel); auto. apply Hf; auto.
+    + exfalso. destruct H2 as [H2 _]. destruct H1 as [_ (rel & Hr & Hy)]. apply (H2 rel); auto. apply Hf; auto.
+    + simpl. destruct H1 as [-> _], H2 as [-> _]. auto.
+  - simpl. intro k. auto.
+Qed.
+
+(* find_package only looks names up: it does not depend on the listing order *)
+Definition regular_init_of (inner : listing) : bool :=
+  match lookup_entry "__init__.py" inner with
+  | Some (File ns _) => negb ns
+  | Some (Dir _) => true
+  | None => false
+  end.
+
+Definition top_obs (name : string) (L : listing) : option (bool * bool) * bool * bool :=
+  (match lookup_entry name L with
+   | None => None
+   | Some nd => let inner := match nd with Dir l => l | File _ _ => [] end in
+                Some (regular_init_of inner, has_entry "__init__.pyi" inner)
+   end,
+   has_entry (name ++ ".py")%string L, has_entry (name ++ ".pyi")%string L).
+
+Definition g_step (name : string) (i : nat) (obs : option (bool * bool) * bool * bool)
+           (rest : list path -> found) (nsacc : list path) : found :=
+  let '(o, py, pyi) := obs in
+  let second acc := if py then FPkg (i, [(name ++ ".py")%string]) (if pyi then Some (i, [(name ++ ".pyi")%string]) else None)
+                    else rest acc in
+  match o with
+  | None => second nsacc
+  | Some (reg, stub) =>
+      if reg then FPkg (i, [name; "__init__.py"]) (if stub then Some (i, [name; "__init__.pyi"]) else None)
+      else if stub then FPkg (i, [name; "__init__.pyi"]) None
+      else second (nsacc ++ [(i, [name])])
+  end.
+
+Lemma g_find_cons : forall U name i r nsacc,
+  g_find U name (i :: r) nsacc = g_step name i (top_obs name (root U i)) (g_find U name r) nsacc.
+Proof.
+  intros. simpl. unfold g_step, top_obs, regular_init_of.
+  destruct (lookup_entry name (root U i)) as [[ns pth|l]|]; auto.
+Qed.
+
+Lemma rel_opt_shape : forall a b, rel_opt a b ->
+  match a with
+  | Some (File ns pth) => b = Some (File ns pth)
+  | Some (Dir l) => exists l', b = Some (Dir l') /\ perm_listing l l'
+  | None => b = None
+  end.
+Proof.
+  intros [[ns pth|l]|] [y|] H; simpl in H; try tauto.
+  - apply perm_node_file_inv in H. subst. auto.
+  - apply perm_node_dir_inv in H. destruct H as (l' & -> & H). eauto.
+Qed.
+
+Lemma has_entry_perm : forall l l' n, perm_listing l l' -> NoDup (map fst l) -> has_entry n l = has_entry n l'.
+Proof.
+  intros l l' n Hp Hnd. unfold has_entry. pose proof (proj2 (lookup_perm l l' Hp) Hnd n) as H.
+  destruct (lookup_entry n l), (lookup_entry n l'); simpl in H; tauto.
+Qed.
+
+Lemma top_obs_perm : forall name L L', perm_listing L L' -> wf_node (Dir L) -> top_obs name L = top_obs name L'.
+Proof.
+  intros name L L' Hp Hwf. inversion Hwf as [|es Hnd Hsub]; subst. unfold top_obs.
+  rewrite (has_entry_perm L L' (name ++ ".py")%string), (has_entry_perm L L' (name ++ ".pyi")%string) by auto.
+  pose proof (rel_opt_shape _ _ (proj2 (lookup_perm L L' Hp) Hnd name)) as H.
+  destruct (lookup_entry name L) as [[ns pth|l]|] eqn:E.
+  - rewrite H. auto.
+  - destruct H as (l' & -> & Hl). destruct (lookup_entry_In _ _ _ E) as [k Hk].
+    pose proof (Hsub _ _ Hk) as Hwl. inversion Hwl as [|es Hndl _]; subst.
+    rewrite (has_entry_perm l l' "__init__.pyi") by auto.
+    unfold regular_init_of.
+    pose proof (rel_opt_shape _ _ (proj2 (lookup_perm l l' Hl) Hndl "__init__.py")) as H2.
+    destruct (lookup_entry "__init__.py" l) as [[ns pth|l2]|].
+    + rewrite H2. auto.
+    + destruct H2 as (l2' & -> & _). auto.
+    + rewrite H2. auto.
+  - rewrite H. auto.
+Qed.
+
+Theorem find_order_invariant : forall U U' name paths nsacc,
+  perm_universe U U' -> wf_universe U ->
+  g_find U name paths nsacc = g_find U' name paths nsacc.
+Proof.
+  intros U U' name paths. induction paths as [|i r IH]; intros nsacc Hp Hw. reflexivity.
+  rewrite !g_find_cons. rewrite (top_obs_perm name (root U i) (root U' i)).
+  - unfold g_step. destruct (top_obs name (root U' i)) as [[[[reg stub]|] py] pyi]; simpl;
+      repeat match goal with |- context [if ?b then _ else _] => destruct b end; auto.
+  - apply root_perm; auto.
+  - apply root_wf; auto.
+Qed.
+
+(* the whole static load of a regular package, search paths given *)
+Theorem load_order_invariant_regular :
+  forall U U' name paths,
+  perm_universe U U' -> wf_universe U ->
+  (forall p st es, g_find U name paths [] = FPkg p st -> iter_regular U p = Ok es -> no_clash es) ->
+  (forall ds, g_find U name paths [] <> FNs ds) ->
+  same_tree (load_found false U (g_find U name paths [])) (load_found false U' (g_find U' name paths [])).
+Proof.
+  intros U U' name paths Hp Hw Hnc Hns.
+  rewrite <- (find_order_invariant U U' name paths [] Hp Hw).
+  destruct (g_find U name paths []) as [p st|ds|] eqn:Ef.
+  - apply listing_order_invariant_regular; auto. intros es He. eapply Hnc; eauto.
+  - exfalso. eapply Hns; eauto.
+  - simpl. auto.
+Qed.
+
+(* ------------------------------------------------------------------------------------------------------------- *)
+(* Part F.  The full statements, their refutations on the unchanged code (one witness per finding), non-vacuity *)
+
+(* does CPython import what Griffe put at this dotted name? *)
+Definition agrees (v : minfo) (s : pyspec) : bool :=
+  match v, s with
+  | MFile p, PyMod q => path_eqb p q
+  | MFile p, PyPkg q _ => path_eqb p q
+  | MFile p, PyNone => path_suffix p =? ".pyi"           (* stub-only module *)
+  | MFile p, PyNs _ => path_suffix p =? ".pyi"           (* stub-only package *)
+  | MNs ps, PyNs qs => negb (match ps with [] => true | _ => false end) && forallb (fun p => mem_path p qs) ps
+  | _, _ => false
+  end.
+
+Definition loaded_importable (U : universe) (sps : list nat) (name : string) : bool :=
+  match load false U sps name with
+  | LOk M => forallb (fun kv => agrees (snd kv) (py_import U (top_dirs (py_paths U sps)) (name :: fst kv))) M
+  | LErr _ => false
+  | LNotFound => true
+  end.
+
+Definition F0 : node := File false [].
+Definition pkg (es : listing) : node := Dir (("__init__.py", F0) :: es).
+
+(* F1 *)
+Definition U_F1 : universe := [(0, [("aa", pkg [("bar.py", F0); ("bar", Dir [("inner.py", F0)])])])].
+Lemma loaded_importable_refuted_F1 : exists U sps name, any_listing gapL_F1 U = true /\ loaded_importable U sps name = false.
+Proof. exists U_F1, [0], "aa". split; vm_compute; reflexivity. Qed.
+
+(* F3, F8, F9, F10: namespace packages over two portions *)
+Definition U_F3 : universe :=
+  [(0, [("aa", Dir [("sub", pkg [("a.py", F0)])])]);
+   (1, [("aa", Dir [("sub", Dir [("x.py", F0); ("other", pkg [("z.py", F0)])])])])].
+Lemma namespace_first_portion_wins_refuted_F3 :
+  exists U sps name, gaps U sps name = ["F3"] /\ loaded_importable U sps name = false.
+Proof. exists U_F3, [0; 1], "aa". split; vm_compute; reflexivity. Qed.
+
+Definition U_F8 : universe := [(0, [("aa", Dir [("n.py", F0); ("x.py", F0)])]); (1, [("aa", Dir [("n.py", F0)])])].
+Lemma namespace_first_portion_wins_refuted_F8 :
+  exists U sps name, gaps U sps name = ["F8"] /\ loaded_importable U sps name = false.
+Proof. exists U_F8, [0; 1], "aa". split; vm_compute; reflexivity. Qed.
+
+Definition U_F9 : universe :=
+  [(0, [("aa", Dir [("sub", Dir [("deep", Dir [(("__init__" ++ ext_suffix)%string, F0)])])])]);
+   (1, [("aa", Dir [("sub", Dir [("b.py", F0)])])])].
+Lemma namespace_portion_dirs_refuted_F9 :
+  exists U sps name, gaps U sps name = ["F9"] /\ loaded_importable U sps name = false.
+Proof. exists U_F9, [0; 1], "aa". split; vm_compute; reflexivity. Qed.
+
+Definition U_F10 : universe :=
+  [(0, [("aa", Dir [("sub", Dir [("early.py", F0)])])]); (1, [("aa", Dir [("sub", pkg [("late.py", F0)])])])].
+Lemma namespace_first_portion_wins_refuted_F10 :
+  exists U sps name, gaps U sps name = ["F10"] /\ loaded_importable U sps name = false.
+Proof. exists U_F10, [0; 1], "aa". split; vm_compute; reflexivity. Qed.
+
+(* F4: loading is not total *)
+Definition U_F4 : universe := [(0, [("aa", pkg [("m.py", F0); (".x.pyi", F0)])])].
+Lemma load_total_refuted_F4 :
+  exists U sps name, any_listing gapL_F4 U = true /\ load false U sps name = LErr "ValueError" /\
+                     exists i l, py_find U name (top_dirs (py_paths U sps)) = PyPkg i l.
+Proof. exists U_F4, [0], "aa". split; [|split]; try (vm_compute; reflexivity). eexists. eexists. vm_compute. reflexivity. Qed.
+
+(* F5: listing order decides between two stub files of one name *)
+Definition U_F5a : universe := [(0, [("aa", pkg [("r.pyi", F0); ("r.x.pyi", F0)])])].
+Definition U_F5b : universe := [(0, [("aa", pkg [("r.x.pyi", F0); ("r.pyi", F0)])])].
+Lemma perm_F5 : perm_universe U_F5a U_F5b.
+Proof.
+  constructor; [|constructor]. split; auto. simpl.
+  apply PL_cons; [|apply PL_refl]. apply PN_dir. apply PL_cons. apply PN_refl. apply PL_swap.
+Qed.
+Lemma wf_F5 : wf_universe U_F5a.
+Proof.
+  intros i l [H|[]]. inversion H; subst. clear H.
+  constructor. repeat constructor; simpl; tauto.
+  intros n x [H|[]]. inversion H; subst. constructor.
+  repeat constructor; simpl; intuition discriminate.
+  intros n' x' G. simpl in G. destruct G as [G|[G|[G|[]]]]; inversion G; subst; constructor.
+Qed.
+Lemma listing_order_refuted_F5 :
+  exists U U' sps name, perm_universe U U' /\ wf_universe U /\ any_listing gapL_F5 U = true /\
+                        ~ same_tree (load false U sps name) (load false U' sps name).
+Proof.
+  exists U_F5a, U_F5b, [0], "aa". split; [apply perm_F5|]. split; [apply wf_F5|]. split; [vm_compute; reflexivity|].
+  vm_compute. intro H. specialize (H ["r"]). vm_compute in H. discriminate.
+Qed.
+
+(* F2, F6, F7: .pth handling *)
+Definition pkgdir (m : string) : listing := [("aa", pkg [(m, F0)])].
+Definition U_F2a : universe := [(0, [("a.pth", File false [(false, 2)]); ("b.pth", File false [(false, 1)])]); (1, pkgdir "one.py"); (2, pkgdir "two.py")].
+Definition U_F2b : universe := [(0, [("b.pth", File false [(false, 1)]); ("a.pth", File false [(false, 2)])]); (1, pkgdir "one.py"); (2, pkgdir "two.py")].
+Lemma paths_order_refuted_F2 :
+  perm_universe U_F2a U_F2b /\ gapU_F2_multi U_F2a = true /\
+  g_paths U_F2a [0] = Some [0; 2; 1] /\ g_paths U_F2b [0] = Some [0; 1; 2] /\ py_paths U_F2b [0] = [0; 2; 1] /\
+  ~ same_tree (load false U_F2a [0] "aa") (load false U_F2b [0] "aa").
+Proof.
+  split. { constructor. split; auto. simpl. apply PL_swap. constructor. split; auto. apply PL_refl.
+           constructor. split; auto. apply PL_refl. constructor. }
+  repeat split; try (vm_compute; reflexivity).
+  vm_compute. intro H. specialize (H ["one"]). vm_compute in H. discriminate.
+Qed.
+
+Definition U_F6 : universe := [(0, [("a.pth", File false [(true, 1)])]); (1, pkgdir "m.py")].
+Lemma paths_eq_refuted_F6 : gapU_F6 U_F6 = true /\ g_paths U_F6 [0] = Some [0] /\ py_paths U_F6 [0] = [0; 1].
+Proof. repeat split; vm_compute; reflexivity. Qed.
+
+Definition U_F7 : universe := [(0, [("a.pth", File false [(false, 1)])]); (1, [("b.pth", File false [(false, 2)])]); (2, pkgdir "m.py")].
+Lemma paths_eq_refuted_F7 : gapU_F7 U_F7 = true /\ g_paths U_F7 [0] = Some [0; 1; 2] /\ py_paths U_F7 [0] = [0; 1].
+Proof. repeat split; vm_compute; reflexivity. Qed.
+
+(* the finder precedence theorem needs its hypotheses: compiled top-level module, stub-only package, pkgutil namespace *)
+Lemma find_eq_refuted_outside_scope :
+  (exists U, ~ find_agree (g_find U "aa" [0] []) (py_find U "aa" (top_dirs [0]))) /\
+  (exists U, g_find U "aa" [0; 1] [] = FPkg (0, ["aa"; "__init__.pyi"]) None /\ py_find U "aa" (top_dirs [0; 1]) = PyMod (1, ["aa.py"])) /\
+  (exists U, g_find U "aa" [0] [] = FNs [(0, ["aa"])] /\ exists l, py_find U "aa" (top_dirs [0]) = PyPkg (0, ["aa"; "__init__.py"]) l).
+Proof.
+  split; [|split].
+  - exists [(0, [("aa.so", F0)])]. vm_compute. tauto.
+  - exists [(0, [("aa", Dir [("__init__.pyi", F0)])]); (1, [("aa.py", F0)])]. split; vm_compute; reflexivity.
+  - exists [(0, [("aa", Dir [("__init__.py", File true [])])])]. split. vm_compute; reflexivity. eexists. vm_compute. reflexivity.
+Qed.
+
+(* non-vacuity: the hypotheses of the positive theorems hold of an ordinary layout, and the conclusions are not trivial *)
+Definition U_ok : universe :=
+  [(0, [("aa", Dir [("m.py", F0)])]);
+   (1, [("README", F0); ("aa", pkg [("m.py", F0); ("m.pyi", F0); ("sub", pkg [("x.py", F0); ("__pycache__", Dir [("x.cpython-312.pyc", F0)])]);
+                                   ("noinit", Dir [("y.py", F0)]); ("n.py", F0); ("n", pkg [])])])].
+Example top_ok_example : forallb (top_ok U_ok "aa") [0; 1] = true.
+Proof. vm_compute. reflexivity. Qed.
+Example find_example : g_find U_ok "aa" [0; 1] [] = FPkg (1, ["aa"; "__init__.py"]) None /\
+                       exists l, py_find U_ok "aa" (top_dirs [0; 1]) = PyPkg (1, ["aa"; "__init__.py"]) l.
+Proof. split. vm_compute. reflexivity. eexists. vm_compute. reflexivity. Qed.
+Definition U_ok2 : universe :=
+  [(1, [("aa", pkg [("m.py", F0); ("m.pyi", F0); ("sub", pkg [("x.py", F0); ("__init__.pyi", F0)]); ("noinit", Dir [("y.py", F0)]); ("n", pkg [])])])].
+Example no_clash_example :
+  match iter_regular U_ok2 (1, ["aa"; "__init__.py"]) with Ok es => no_clashb es = true /\ List.length es = 7 | Err _ => False end.
+Proof. vm_compute. auto. Qed.
+Example loaded_example :
+  exists M, load false U_ok [0; 1] "aa" = LOk M /\
+            lookup_m ["m"] M = Some (MFile (1, ["aa"; "m.py"])) /\
+            lookup_m ["n"] M = Some (MFile (1, ["aa"; "n"; "__init__.py"])) /\
+            lookup_m ["sub"; "x"] M = Some (MFile (1, ["aa"; "sub"; "x.py"])) /\
+            lookup_m ["noinit"; "y"] M = None /\
+            loaded_importable U_ok [0; 1] "aa" = true.
+Proof. eexists. split. vm_compute. reflexivity. repeat split; vm_compute; reflexivity. Qed.
+
+(* ------------------------------------------------------------------------------------------------------------- *)
+(* Part G.  The .pth loop runs over the list it extends: the fuel g_paths passes always suffices *)
+
+Lemma mem_nat_In : forall x l, mem_nat x l = true <-> In x l.
+Proof.
+  intros. unfold mem_nat. rewrite existsb_exists. split.
+  - intros (y & Hy & E). apply Nat.eqb_eq in E. subst. auto.
+  - intro H. exists x. split; auto. apply Nat.eqb_refl.
+Qed.
+
+Lemma add_new_spec : forall xs known,
+  NoDup (add_new xs known) /\ forall x, In x (add_new xs known) -> In x xs /\ ~ In x known.
+Proof.
+  induction xs as [|a r IH]; intros known; simpl.
+  - split. constructor. intros x [].
+  - destruct (mem_nat a known) eqn:E.
+    + destruct (IH known) as [H1 H2]. split; auto. intros x Hx. destruct (H2 x Hx). auto.
+    + destruct (IH (known ++ [a])) as [H1 H2]. split.
+      * constructor; auto. intro Ha. destruct (H2 a Ha) as [_ Hn]. apply Hn. apply in_or_app. right. left. auto.
+      * intros x [<-|Hx].
+        -- split; auto. intro Hk. apply mem_nat_In in Hk. congruence.
+        -- destruct (H2 x Hx) as [Hr Hn]. split; auto. intro Hk. apply Hn. apply in_or_app. auto.
+Qed.
+
+Lemma NoDup_app_disj : forall (l1 l2 : list nat),
+  NoDup l1 -> NoDup l2 -> (forall x, In x l2 -> ~ In x l1) -> NoDup (l1 ++ l2).
+Proof.
+  induction l1 as [|a r IH]; intros l2 H1 H2 Hd; simpl; auto.
+  inversion H1; subst. constructor.
+  - intro Ha. apply in_app_or in Ha. destruct Ha as [Ha|Ha]; auto. apply (Hd a Ha). left; auto.
+  - apply IH; auto. intros x Hx Hr. apply (Hd x Hx). right; auto.
+Qed.
+
+Definition all_targets (U : universe) : list nat := flat_map (fun il : nat * listing => pth_targets_griffe (snd il)) U.
+
+Lemma total_pth_lines_length : forall U, total_pth_lines U = List.length (all_targets U).
+Proof.
+  induction U as [|[i l] r IH]; simpl; auto. unfold total_pth_lines in *. simpl. rewrite app_length. rewrite IH. auto.
+Qed.
+
+Lemma root_targets_incl : forall U p, incl (pth_targets_griffe (root U p)) (all_targets U).
+Proof.
+  intros U p x Hx. unfold root in Hx. destruct (lookup_nat p U) as [l|] eqn:E.
+  - apply lookup_nat_In in E. unfold all_targets. apply in_flat_map. exists (p, l). auto.
+  - simpl in Hx. contradiction.
+Qed.
+
+Lemma g_paths_loop_fuel : forall U S f done todo,
+  incl (all_targets U) S ->
+  NoDup (done ++ todo) -> incl (done ++ todo) S -> List.length S + 1 <= f + List.length done ->
+  g_paths_loop f U done todo <> None.
+Proof.
+  intros U S f. induction f as [|f IH]; intros done todo HS Hnd Hin Hf.
+  - destruct todo as [|p r]; simpl. discriminate.
+    exfalso. pose proof (NoDup_incl_length Hnd Hin) as Hl. rewrite app_length in Hl. simpl in *. lia.
+  - destruct todo as [|p r]; simpl. discriminate.
+    destruct (add_new_spec (pth_targets_griffe (root U p)) (done ++ p :: r)) as [Hn1 Hn2].
+    apply IH; auto.
+    + rewrite <- app_assoc. simpl. rewrite app_comm_cons. rewrite app_assoc.
+      apply NoDup_app_disj; auto. intros x Hx. destruct (Hn2 x Hx). auto.
+    + rewrite <- app_assoc. simpl. rewrite app_comm_cons. rewrite app_assoc.
+      apply incl_app; auto. intros x Hx. destruct (Hn2 x Hx) as [Hx' _].
+      apply HS. eapply root_targets_incl; eauto.
+    + rewrite app_length. simpl. lia.
+Qed.
+
+Theorem g_paths_fuel_sufficient : forall U sps, g_paths U sps <> None.
+Proof.
+  intros U sps. unfold g_paths.
+  destruct (add_new_spec sps []) as [Hn _].
+  apply (g_paths_loop_fuel U (add_new sps [] ++ all_targets U)).
+  - apply incl_appr. apply incl_refl.
+  - simpl. auto.
+  - simpl. apply incl_appl. apply incl_refl.
+  - rewrite app_length, total_pth_lines_length. simpl. lia.
+Qed.
+
+Lemma iter_files_err_kind : forall base skip files seen x,
+  iter_files base skip files seen = Err x -> x = "ValueError".
+Proof.
+  induction files as [|rel r IH]; intros seen x H; simpl in H. discriminate.
+  destruct (mem_lstr (removelast rel) skip). eapply IH; eauto.
+  destruct (name_to_yield rel).
+  - eapply IH; eauto.
+  - destruct (iter_files base skip r (seen ++ [removelast rel])) as [[es s]|e] eqn:E; [discriminate|].
+    inversion H; subst. eapply IH; eauto.
+  - destruct (iter_files base skip r seen) as [[es s]|e] eqn:E; [discriminate|].
+    inversion H; subst. eapply IH; eauto.
+  - inversion H. auto.
+Qed.
+
+Lemma iter_portions_err_kind : forall U ds seen x, iter_portions U ds seen = Err x -> x = "ValueError".
+Proof.
+  induction ds as [|d r IH]; intros seen x H; simpl in H. discriminate.
+  destruct (start_dir d) as [d'|]; [|eapply IH; eauto].
+  destruct (iter_files d' seen (portion_files U d') seen) as [[es s]|e] eqn:E.
+  - destruct (iter_portions U r s) as [es'|e] eqn:E2; [discriminate|]. inversion H; subst. eapply IH; eauto.
+  - inversion H; subst. eapply iter_files_err_kind; eauto.
+Qed.
+
+Corollary load_never_out_of_fuel : forall insp U sps name, load insp U sps name <> LErr "OutOfFuel".
+Proof.
+  intros insp U sps name. unfold load. pose proof (g_paths_fuel_sufficient U sps) as H.
+  destruct (g_paths U sps) as [ps|]; [|congruence].
+  unfold load_found. destruct (g_find U name ps []) as [p st|ds|]; try discriminate.
+  - destruct (node_at U p) as [[a b|l]|]; try discriminate.
+    unfold iter_regular. destruct (start_dir p) as [d|]; try discriminate.
+    destruct (iter_files d [] (portion_files U d) []) as [[es s]|x] eqn:E; try discriminate.
+    apply iter_files_err_kind in E. subst. discriminate.
+  - destruct (iter_portions U ds []) as [es|x] eqn:E; try discriminate.
+    apply iter_portions_err_kind in E. subst. discriminate.
+Qed.
+
+(* ------------------------------------------------------------------------------------------------------------- *)
+(* Part H.  Regular packages: every loaded module is importable by CPython from that file, or is stub-only --
+   modulo the shape of finding F1 and on source-form layouts *)
+
+(* strings *)
+Lemma split_last_dot_app : forall s a b, split_last_dot s = Some (a, b) -> s = (a ++ b)%string.
+Proof.
+  induction s as [|c r IH]; simpl; intros a b H. discriminate.
+  destruct (split_last_dot r) as [[a' b']|] eqn:E.
+  - inversion H; subst. simpl. f_equal. apply IH. auto.
+  - destruct (is_dot c); inversion H; subst. reflexivity.
+Qed.
+
+Lemma pl_split_app : forall s, (pl_stem s ++ pl_suffix s)%string = s.
+Proof.
+  intros s. unfold pl_stem, pl_suffix, pl_split.
+  destruct (split_last_dot s) as [[a b]|] eqn:E.
+  - destruct (negb (a =? "") && (2 <=? String.length b)%nat); simpl.
+    + symmetry. apply split_last_dot_app. auto.
+    + clear. induction s; simpl; auto. f_equal. auto.
+  - simpl. clear. induction s; simpl; auto. f_equal. auto.
+Qed.
+
+Lemma split_last_dot_py : forall m, split_last_dot (m ++ ".py")%string = Some (m, ".py").
+Proof. induction m as [|c r IH]; simpl. reflexivity. rewrite IH. reflexivity. Qed.
+
+Lemma pl_split_py : forall m, m <> "" -> pl_split (m ++ ".py")%string = (m, ".py").
+Proof.
+  intros m Hm. unfold pl_split. rewrite split_last_dot_py.
+  destruct (m =? "") eqn:E. apply String.eqb_eq in E. contradiction. reflexivity.
+Qed.
+
+Lemma all_dots_has_dot : forall m, m <> "" -> has_dot m = false -> all_dots m = false.
+Proof. destruct m as [|c r]; simpl; intros H1 H2. contradiction. apply orb_false_iff in H2. destruct H2 as [-> _]. reflexivity. Qed.
+
+Lemma os_ext_py : forall m, m <> "" -> has_dot m = false -> os_ext (m ++ ".py")%string = ".py".
+Proof. intros m H1 H2. unfold os_ext. rewrite split_last_dot_py. rewrite all_dots_has_dot; auto. Qed.
+
+(* navigation *)
+Lemma get_node_snoc : forall q l c,
+  get_node l (q ++ [c]) =
+    match get_node l q with
+    | Some (Dir lq) => lookup_entry c lq
+    | _ => None
+    end.
+Proof.
+  induction q as [|a r IH]; intros l c; simpl.
+  - destruct (lookup_entry c l) as [[ns pth|l']|]; auto.
+  - destruct (lookup_entry a l) as [[ns pth|l']|] eqn:E.
+    + destruct r; simpl; auto.
+    + apply IH.
+    + reflexivity.
+Qed.
+
+Lemma lookup_entry_In_iff : forall l n x, NoDup (map fst l) -> (lookup_entry n l = Some x <-> In (n, x) l).
+Proof.
+  induction l as [|[k v] r IH]; simpl; intros n x Hnd. split; [discriminate|tauto].
+  inversion Hnd; subst. destruct (k =? n) eqn:E.
+  - apply String.eqb_eq in E. subst. split.
+    + intro H. inversion H; auto.
+    + intros [H|H]. inversion H; auto. exfalso. apply H1. apply (in_map fst) in H. auto.
+  - rewrite IH by auto. split; auto. intros [H|H]; auto. inversion H; subst. rewrite String.eqb_refl in E. discriminate.
+Qed.
+
+(* os.walk as path resolution: r is yielded iff it is q ++ [fn] where q leads through directories (none called
+   __pycache__) to a directory that holds the accepted file fn *)
+Definition reaches (L : listing) (q : list string) (Lq : listing) : Prop :=
+  get_node L q = Some (Dir Lq) /\ ~ In "__pycache__" q.
+
+Definition deep_nodup (L : listing) : Prop := forall q Lq, get_node L q = Some (Dir Lq) -> NoDup (map fst Lq).
+
+Lemma deep_nodup_sub : forall L n inner, deep_nodup L -> lookup_entry n L = Some (Dir inner) -> deep_nodup inner.
+Proof.
+  intros L n inner H Hl q Lq Hq. apply (H (n :: q)). simpl. rewrite Hl. auto.
+Qed.
+
+Lemma walk_resolves : forall nd pre r, match nd with Dir L => deep_nodup L | _ => True end ->
+  (In r (walk pre nd) <->
+   match nd with
+   | File _ _ => False
+   | Dir L => exists q fn Lq, r = pre ++ q ++ [fn] /\ reaches L q Lq /\ has_file fn Lq = true /\ accepted fn = true
+   end).
+Proof.
+  induction nd as [a b|es IH] using node_ind'; intros pre r Hdn. simpl. tauto.
+  rewrite walk_dir_in. split.
+  - intros ([nm x] & He & Hr). unfold contrib in Hr. simpl in Hr. apply in_app_or in Hr. destruct Hr as [Hr|Hr].
+    + destruct (is_file x && accepted nm) eqn:E; simpl in Hr; [|contradiction]. destruct Hr as [<-|[]].
+      apply andb_true_iff in E. destruct E as [E1 E2].
+      exists [], nm, es. split; auto. split. split; simpl; auto. split; auto.
+      unfold has_file. pose proof (Hdn [] es eq_refl) as Hnd.
+      apply (proj2 (lookup_entry_In_iff es nm x Hnd)) in He. rewrite He. destruct x; simpl in *; congruence.
+    + destruct x as [a b|es']; [contradiction|]. destruct (nm =? "__pycache__") eqn:Epc; [contradiction|].
+      pose proof (Hdn [] es eq_refl) as Hnd.
+      pose proof (proj2 (lookup_entry_In_iff es nm (Dir es') Hnd) He) as Hl.
+      apply (IH nm (Dir es') He (pre ++ [nm]) r (deep_nodup_sub es nm es' Hdn Hl)) in Hr.
+      destruct Hr as (q & fn & Lq & -> & [Hg Hpc] & Hf & Ha).
+      exists (nm :: q), fn, Lq. split. rewrite <- app_assoc. reflexivity.
+      split; auto. split. simpl. rewrite Hl. auto.
+      intros [H|H]; auto. subst. rewrite String.eqb_refl in Epc. discriminate.
+  - intros (q & fn & Lq & -> & [Hg Hpc] & Hf & Ha).
+    pose proof (Hdn [] es eq_refl) as Hnd.
+    destruct q as [|nm q].
+    + simpl in Hg. inversion Hg; subst Lq. unfold has_file in Hf.
+      destruct (lookup_entry fn es) as [[a b|?]|] eqn:E; try discriminate.
+      exists (fn, File a b). split. apply lookup_entry_In_iff; auto.
+      unfold contrib. simpl. rewrite Ha. simpl. auto.
+    + simpl in Hg. destruct (lookup_entry nm es) as [[a b|es']|] eqn:E; try discriminate.
+      { destruct q; discriminate. }
+      exists (nm, Dir es'). split. apply lookup_entry_In_iff; auto.
+      unfold contrib. cbn [fst snd is_file andb app].
+      destruct (nm =? "__pycache__") eqn:Epc. apply String.eqb_eq in Epc. exfalso. apply Hpc. left. auto.
+      apply (IH nm (Dir es') (proj1 (lookup_entry_In_iff es nm (Dir es') Hnd) E) (pre ++ [nm])).
+      eapply deep_nodup_sub; eauto.
+      exists q, fn, Lq. split. rewrite <- app_assoc. reflexivity.
+      split; auto. split; auto. intro H. apply Hpc. right. auto.
+Qed.
+
+Lemma get_node_app_dir : forall a l la b, get_node l a = Some (Dir la) -> get_node l (a ++ b) = get_node la b.
+Proof.
+  induction a as [|c r IH]; intros l la b H; simpl in *.
+  - inversion H; subst. reflexivity.
+  - destruct (lookup_entry c l) as [[ns pth|l']|] eqn:E; try discriminate.
+    + destruct r; discriminate.
+    + eapply IH; eauto.
+Qed.
+
+Lemma first_file_with_src : forall n L,
+  (forall s, In s compiled_suffixes -> has_file (n ++ s)%string L = false) ->
+  first_file_with n py_suffixes L = if has_file (n ++ ".py")%string L then Some (n ++ ".py")%string else None.
+Proof.
+  intros n L H. simpl.
+  rewrite (H ext_suffix), (H ".abi3.so"), (H ".so"), (H ".pyc") by (simpl; auto 6). reflexivity.
+Qed.
+
+Lemma is_proper_prefix_app : forall (a b : list string), b <> [] -> is_proper_prefix a (a ++ b) = true.
+Proof.
+  induction a as [|x r IH]; intros b Hb; simpl.
+  - destruct b; congruence.
+  - rewrite String.eqb_refl. simpl. apply IH. auto.
+Qed.
+
+Section Importable.
+  Variable U : universe.
+  Variable D : path.
+  Variable L0 : listing.
+  Hypothesis HD : listing_at U D = Some L0.
+  Hypothesis Hdn : deep_nodup L0.
+  (* source-form package tree: no compiled file names, no pkgutil-style declaration *)
+  Hypothesis Hsrc : forall q Lq, get_node L0 q = Some (Dir Lq) ->
+    (forall n s, In s compiled_suffixes -> has_file (n ++ s)%string Lq = false) /\
+    (forall ns pth, lookup_entry "__init__.py" Lq = Some (File ns pth) -> ns = false).
+  Variable es : list entry.
+  Hypothesis Hes : forall e, In e es <-> exists rel, In rel (walk [] (Dir L0)) /\ yields D rel e.
+  Hypothesis Hnc : no_clash es.
+  (* the shape of finding F1 is absent: nothing is yielded below the name of a plain module file *)
+  Hypothesis Hup : forall m e, In m es -> In e es -> entry_ok m = true ->
+    name_to_yield (e_rel m) = YMod (e_parts m) -> is_proper_prefix (e_parts m) (e_parts e) = false.
+
+  Definition Dq (q : list string) : path := (fst D, snd D ++ q).
+
+  Definition comp_ok (c : string) : Prop := c <> "" /\ has_dot c = false /\ c <> "__init__" /\ c <> "__pycache__".
+
+  Lemma listing_at_Dq : forall q Lq, get_node L0 q = Some (Dir Lq) -> listing_at U (Dq q) = Some Lq.
+  Proof.
+    intros q Lq H. unfold listing_at, node_at, Dq in *. simpl.
+    destruct (get_node (root U (fst D)) (snd D)) as [[ns pth|l]|] eqn:E; try discriminate.
+    inversion HD; subst l. rewrite (get_node_app_dir _ _ _ q E). rewrite H. reflexivity.
+  Qed.
+
+  Lemma node_at_Dq_file : forall q Lq fn, get_node L0 q = Some (Dir Lq) ->
+    node_at U (Dq (q ++ [fn])) = lookup_entry fn Lq.
+  Proof.
+    intros q Lq fn H. unfold node_at, Dq. simpl. unfold listing_at, node_at in HD.
+    destruct (get_node (root U (fst D)) (snd D)) as [[ns pth|l]|] eqn:E; try discriminate.
+    inversion HD; subst l. rewrite (get_node_app_dir _ _ _ (q ++ [fn]) E). rewrite get_node_snoc, H. reflexivity.
+  Qed.
+
+  Lemma sub_Dq : forall q c, sub (Dq q) c = Dq (q ++ [c]).
+  Proof. intros. unfold sub, Dq. simpl. rewrite app_assoc. reflexivity. Qed.
+
+  Lemma no_dots_app : forall (q : list string) n, existsb has_dot (q ++ [n]) = false ->
+    existsb has_dot q = false /\ has_dot n = false.
+  Proof. intros q n H. rewrite existsb_app in H. simpl in H. rewrite orb_false_r in H. apply orb_false_iff in H. auto. Qed.
+
+  (* C1: a file n.py in a reachable directory is yielded as the plain module q.n *)
+  Lemma module_file_entry : forall q Lq n,
+    reaches L0 q Lq -> has_file (n ++ ".py")%string Lq = true -> comp_ok n -> existsb has_dot q = false ->
+    exists e, In e es /\ entry_ok e = true /\ e_parts e = q ++ [n] /\ is_pyi e = false /\
+              e_abs e = Dq (q ++ [(n ++ ".py")%string]) /\ name_to_yield (e_rel e) = YMod (e_parts e).
+  Proof.
+    intros q Lq n Hr Hf (Hn1 & Hn2 & Hn3 & Hn4) Hq.
+    set (fn := (n ++ ".py")%string). set (rel := q ++ [fn]).
+    assert (Hy : name_to_yield rel = YMod (q ++ [n])).
+    { unfold name_to_yield, rel. rewrite last_last, List.removelast_last.
+      unfold pl_suffix, pl_stem, fn. rewrite pl_split_py by auto. simpl.
+      destruct (n =? "__init__") eqn:E. apply String.eqb_eq in E. contradiction. reflexivity. }
+    exists (mkE (q ++ [n]) D rel). split; [|split; [|split; [|split; [|split]]]]; simpl; auto.
+    - apply Hes. exists rel. split.
+      + apply (walk_resolves (Dir L0) [] rel Hdn). exists q, fn, Lq. split; auto. split; auto. split; auto.
+        unfold accepted, fn. rewrite os_ext_py by auto. reflexivity.
+      + unfold yields. rewrite Hy. reflexivity.
+    - unfold entry_ok. simpl. rewrite existsb_app. simpl. rewrite Hq, Hn2. simpl.
+      unfold static_loadable, path_suffix, e_abs. simpl. unfold rel. rewrite app_assoc, last_last.
+      unfold pl_suffix, fn. rewrite pl_split_py by auto. reflexivity.
+    - unfold is_pyi, path_suffix, e_abs. simpl. unfold rel. rewrite app_assoc, last_last.
+      unfold pl_suffix, fn. rewrite pl_split_py by auto. reflexivity.
+  Qed.
+
+  (* C2: an __init__.py in a reachable sub-directory n is yielded as the package q.n *)
+  Lemma init_file_entry : forall q Lq n Lm,
+    reaches L0 q Lq -> lookup_entry n Lq = Some (Dir Lm) -> has_file "__init__.py" Lm = true ->
+    comp_ok n -> existsb has_dot q = false ->
+    exists e, In e es /\ entry_ok e = true /\ e_parts e = q ++ [n] /\ is_pyi e = false /\
+              e_abs e = Dq (q ++ [n; "__init__.py"]) /\ name_to_yield (e_rel e) = YInit (e_parts e).
+  Proof.
+    intros q Lq n Lm [Hg Hpc] Hl Hf (Hn1 & Hn2 & Hn3 & Hn4) Hq.
+    set (rel := (q ++ [n]) ++ ["__init__.py"]).
+    assert (Hy : name_to_yield rel = YInit (q ++ [n])).
+    { unfold name_to_yield, rel. rewrite last_last, List.removelast_last. simpl.
+      rewrite app_length. simpl. rewrite app_length. simpl.
+      destruct (List.length q + 1 + 1 =? 1)%nat eqn:E; [apply Nat.eqb_eq in E; lia|]. reflexivity. }
+    exists (mkE (q ++ [n]) D rel). split; [|split; [|split; [|split; [|split]]]]; simpl; auto.
+    - apply Hes. exists rel. split.
+      + apply (walk_resolves (Dir L0) [] rel Hdn). exists (q ++ [n]), "__init__.py", Lm. split; auto. split; [|split; auto].
+        split. rewrite get_node_snoc, Hg. auto.
+        intro H. apply in_app_or in H. destruct H as [H|[H|[]]]; auto.
+      + unfold yields. rewrite Hy. reflexivity.
+    - unfold entry_ok. simpl. rewrite existsb_app. simpl. rewrite Hq, Hn2. simpl.
+      unfold static_loadable, path_suffix, e_abs. simpl. unfold rel. rewrite app_assoc, last_last. reflexivity.
+    - unfold is_pyi, path_suffix, e_abs. simpl. unfold rel. rewrite app_assoc, last_last. reflexivity.
+    - unfold e_abs, Dq. simpl. unfold rel. rewrite <- app_assoc. reflexivity.
+  Qed.
+
+  Definition stem_of (rel : list string) : string :=
+    let fn := last rel "" in
+    if pl_suffix fn =? ".py" then pl_stem fn else before_first_dot (pl_stem fn).
+
+  Lemma name_to_yield_init : forall rel p, name_to_yield rel = YInit p ->
+    p = removelast rel /\ stem_of rel = "__init__".
+  Proof.
+    intros rel p H. unfold name_to_yield in H. fold (stem_of rel) in H.
+    destruct (stem_of rel =? "__init__") eqn:E.
+    - apply String.eqb_eq in E. destruct (List.length rel =? 1)%nat; inversion H. auto.
+    - destruct (pl_suffix (last rel "") =? ".py"); [discriminate|]. destruct (stem_of rel =? ""); discriminate.
+  Qed.
+
+  Lemma name_to_yield_mod : forall rel p, name_to_yield rel = YMod p ->
+    p = removelast rel ++ [stem_of rel] /\ stem_of rel <> "__init__".
+  Proof.
+    intros rel p H. unfold name_to_yield in H. fold (stem_of rel) in H.
+    destruct (stem_of rel =? "__init__") eqn:E.
+    - destruct (List.length rel =? 1)%nat; discriminate.
+    - apply String.eqb_neq in E. destruct (pl_suffix (last rel "") =? ".py").
+      + inversion H. auto.
+      + destruct (stem_of rel =? ""); inversion H. auto.
+  Qed.
+
+  (* where a yielded entry lives *)
+  Lemma entry_shape : forall e q n, In e es -> e_parts e = q ++ [n] ->
+    e_base e = D /\
+    ((exists fn Lq, reaches L0 q Lq /\ has_file fn Lq = true /\ e_rel e = q ++ [fn] /\
+                    name_to_yield (e_rel e) = YMod (e_parts e) /\ stem_of (e_rel e) = n) \/
+     (exists fn Lq Lm, reaches L0 q Lq /\ lookup_entry n Lq = Some (Dir Lm) /\ n <> "__pycache__" /\ has_file fn Lm = true /\
+                       e_rel e = q ++ [n; fn] /\ name_to_yield (e_rel e) = YInit (e_parts e) /\ stem_of (e_rel e) = "__init__")).
+  Proof.
+    intros e q n He Hp. apply Hes in He. destruct He as (rel & Hw & Hy).
+    apply (walk_resolves (Dir L0) [] rel Hdn) in Hw. destruct Hw as (q' & fn & Lq' & Hrel & [Hg Hpc] & Hf & Ha).
+    simpl in Hrel. unfold yields in Hy.
+    destruct (name_to_yield rel) as [|parts|parts|] eqn:Ey; try contradiction; subst e; simpl in *; split; auto.
+    - right. destruct (name_to_yield_init _ _ Ey) as [Hparts Hst]. subst rel. rewrite List.removelast_last in Hparts.
+      subst parts q'. rewrite get_node_snoc in Hg.
+      destruct (get_node L0 q) as [[a b|Lq]|] eqn:Eq; try discriminate.
+      exists fn, Lq, Lq'. repeat split; auto.
+      + intro H. apply Hpc. apply in_or_app. auto.
+      + intro H. apply Hpc. apply in_or_app. right. left. auto.
+      + rewrite <- app_assoc. reflexivity.
+    - left. destruct (name_to_yield_mod _ _ Ey) as [Hparts Hst]. subst rel. rewrite List.removelast_last in Hparts.
+      subst parts. apply app_inj_tail in Hparts. destruct Hparts as [-> Hn].
+      exists fn, Lq'. repeat split; auto.
+  Qed.
+
+  (* FileFinder in a source-form directory *)
+  Lemma ff_src : forall q Lq n, get_node L0 q = Some (Dir Lq) ->
+    file_finder U (Dq q) n =
+      match lookup_entry n Lq with
+      | Some (Dir Lm) =>
+          if has_file "__init__.py" Lm then FFPkg (Dq (q ++ [n; "__init__.py"])) (Dq (q ++ [n]))
+          else if has_file (n ++ ".py")%string Lq then FFMod (Dq (q ++ [(n ++ ".py")%string]))
+          else FFPortion (Dq (q ++ [n]))
+      | _ => if has_file (n ++ ".py")%string Lq then FFMod (Dq (q ++ [(n ++ ".py")%string])) else FFNothing
+      end.
+  Proof.
+    intros q Lq n Hg. unfold file_finder. rewrite (listing_at_Dq q Lq Hg).
+    destruct (Hsrc q Lq Hg) as [Hc _].
+    rewrite (first_file_with_src n Lq (Hc n)).
+    destruct (lookup_entry n Lq) as [[a b|Lm]|] eqn:El.
+    - destruct (has_file (n ++ ".py")%string Lq); auto. rewrite sub_Dq. reflexivity.
+    - assert (Hgm : get_node L0 (q ++ [n]) = Some (Dir Lm)) by (rewrite get_node_snoc, Hg; auto).
+      destruct (Hsrc _ _ Hgm) as [Hcm _].
+      rewrite (first_file_with_src "__init__" Lm (Hcm "__init__")).
+      change ("__init__" ++ ".py")%string with "__init__.py".
+      destruct (has_file "__init__.py" Lm).
+      + rewrite !sub_Dq. rewrite <- app_assoc. reflexivity.
+      + destruct (has_file (n ++ ".py")%string Lq); rewrite sub_Dq; reflexivity.
+    - destruct (has_file (n ++ ".py")%string Lq); auto. rewrite sub_Dq. reflexivity.
+  Qed.
+
+  Lemma py_find_single : forall n d,
+    py_find U n [d] =
+      match file_finder U d n with
+      | FFPkg init x => PyPkg init (if init_declares_ns U init then extend_path U [d] n x else [x])
+      | FFMod f => PyMod f
+      | FFPortion x => PyNs [x]
+      | FFNothing => PyNone
+      end.
+  Proof. intros. unfold py_find. simpl. destruct (file_finder U d n); reflexivity. Qed.
+
+  Lemma path_suffix_abs : forall e r fn, e_rel e = r ++ [fn] -> path_suffix (e_abs e) = pl_suffix fn.
+  Proof. intros e r fn H. unfold path_suffix, e_abs. simpl. rewrite H. rewrite app_assoc, last_last. reflexivity. Qed.
+
+  Lemma Dq_neq : forall q a b c, Dq (q ++ [a]) <> Dq (q ++ [b; c]).
+  Proof.
+    intros q a b c H. unfold Dq in H. inversion H as [H1]. apply app_inv_head in H1. apply app_inv_head in H1. discriminate.
+  Qed.
+
+  Lemma has_file_lookup : forall fn L, has_file fn L = true -> exists ns pth, lookup_entry fn L = Some (File ns pth).
+  Proof. intros fn L H. unfold has_file in H. destruct (lookup_entry fn L) as [[ns pth|?]|]; try discriminate. eauto. Qed.
+
+  Lemma reaches_fun : forall q L1 L2, reaches L0 q L1 -> reaches L0 q L2 -> L1 = L2.
+  Proof. intros q L1 L2 [H1 _] [H2 _]. congruence. Qed.
+
+  Lemma leaf_agrees : forall q Lq n a,
+    reaches L0 q Lq -> In a es -> entry_ok a = true -> e_parts a = q ++ [n] -> comp_ok n ->
+    (is_pyi a = true -> forall b, In b es -> entry_ok b = true -> e_parts b = q ++ [n] -> is_pyi b = true) ->
+    agrees (MFile (e_abs a)) (py_find U n [Dq q]) = true.
+  Proof.
+    intros q Lq n a Hr Ha Hok Hp Hn Hall.
+    assert (Hdots : existsb has_dot q = false).
+    { unfold entry_ok in Hok. apply andb_true_iff in Hok. destruct Hok as [Hd _]. apply negb_true_iff in Hd.
+      rewrite Hp in Hd. apply no_dots_app in Hd. tauto. }
+    assert (K1 : has_file (n ++ ".py")%string Lq = true -> exists e, In e es /\ entry_ok e = true /\ e_parts e = q ++ [n] /\
+                   is_pyi e = false /\ e_abs e = Dq (q ++ [(n ++ ".py")%string])).
+    { intro Hf. destruct (module_file_entry q Lq n Hr Hf Hn Hdots) as (e & H1 & H2 & H3 & H4 & H5 & _). eauto 8. }
+    assert (K2 : forall Lm, lookup_entry n Lq = Some (Dir Lm) -> has_file "__init__.py" Lm = true ->
+                 exists e, In e es /\ entry_ok e = true /\ e_parts e = q ++ [n] /\ is_pyi e = false /\
+                           e_abs e = Dq (q ++ [n; "__init__.py"])).
+    { intros Lm Hl Hf. destruct (init_file_entry q Lq n Lm Hr Hl Hf Hn Hdots) as (e & H1 & H2 & H3 & H4 & H5 & _). eauto 8. }
+    rewrite py_find_single. rewrite (ff_src q Lq n (proj1 Hr)).
+    destruct (entry_shape a q n Ha Hp) as [Hbase [(fn & Lq' & Hr' & Hf & Hrel & Hy & Hst)|(fn & Lq' & Lm & Hr' & Hl & Hnpc & Hf & Hrel & Hy & Hst)]];
+      pose proof (reaches_fun _ _ _ Hr Hr'); subst Lq'.
+    - (* a is the module file fn of the directory *)
+      pose proof (path_suffix_abs a q fn Hrel) as Hsuf.
+      assert (Habs : e_abs a = Dq (q ++ [fn])) by (unfold e_abs, Dq; rewrite Hbase, Hrel; reflexivity).
+      pose proof Hok as Hok0. unfold entry_ok in Hok. apply andb_true_iff in Hok. destruct Hok as [_ Hload]. unfold static_loadable in Hload. rewrite Hsuf in Hload.
+      unfold stem_of in Hst. rewrite Hrel, last_last in Hst.
+      destruct (pl_suffix fn =? ".py") eqn:Epy.
+      + apply String.eqb_eq in Epy.
+        assert (Hfn : fn = (n ++ ".py")%string) by (rewrite <- (pl_split_app fn), Hst, Epy; reflexivity).
+        subst fn.
+        assert (Hnp : is_pyi a = false) by (unfold is_pyi; rewrite Hsuf, Epy; reflexivity).
+        rewrite Hf.
+        destruct (lookup_entry n Lq) as [[x y|Lm]|] eqn:El; simpl; try (rewrite Habs; apply path_eqb_refl).
+        destruct (has_file "__init__.py" Lm) eqn:Ei; simpl; try (rewrite Habs; apply path_eqb_refl).
+        exfalso. destruct (K2 Lm eq_refl Ei) as (e & H1 & H2 & H3 & H4 & H5).
+        assert (e_abs a = e_abs e) by (apply Hnc; auto; congruence).
+        rewrite Habs, H5 in H. eapply Dq_neq; eauto.
+      + simpl in Hload.
+        assert (Hpyi : is_pyi a = true) by (unfold is_pyi; rewrite Hsuf; auto).
+        specialize (Hall Hpyi).
+        assert (N1 : has_file (n ++ ".py")%string Lq = false).
+        { destruct (has_file (n ++ ".py")%string Lq) eqn:E; auto. destruct (K1 eq_refl) as (e & H1 & H2 & H3 & H4 & _).
+          rewrite (Hall e H1 H2 H3) in H4. discriminate. }
+        rewrite N1.
+        assert (Hres : path_suffix (e_abs a) =? ".pyi" = true) by (rewrite Hsuf; auto).
+        destruct (lookup_entry n Lq) as [[x y|Lm]|] eqn:El; simpl; auto.
+        destruct (has_file "__init__.py" Lm) eqn:Ei; simpl; auto.
+        exfalso. destruct (K2 Lm eq_refl Ei) as (e & H1 & H2 & H3 & H4 & _). rewrite (Hall e H1 H2 H3) in H4. discriminate.
+    - (* a is an __init__ file of the sub-directory n *)
+      assert (Hrel' : e_rel a = (q ++ [n]) ++ [fn]) by (rewrite Hrel, <- app_assoc; reflexivity).
+      pose proof (path_suffix_abs a (q ++ [n]) fn Hrel') as Hsuf.
+      assert (Habs : e_abs a = Dq (q ++ [n; fn])) by (unfold e_abs, Dq; rewrite Hbase, Hrel; reflexivity).
+      pose proof Hok as Hok0. unfold entry_ok in Hok. apply andb_true_iff in Hok. destruct Hok as [_ Hload]. unfold static_loadable in Hload. rewrite Hsuf in Hload.
+      unfold stem_of in Hst. rewrite Hrel', last_last in Hst.
+      rewrite Hl.
+      destruct (pl_suffix fn =? ".py") eqn:Epy.
+      + apply String.eqb_eq in Epy.
+        assert (Hfn : fn = "__init__.py") by (rewrite <- (pl_split_app fn), Hst, Epy; reflexivity).
+        subst fn. rewrite Hf. simpl. rewrite Habs. apply path_eqb_refl.
+      + simpl in Hload.
+        assert (Hpyi : is_pyi a = true) by (unfold is_pyi; rewrite Hsuf; auto).
+        specialize (Hall Hpyi).
+        assert (N1 : has_file (n ++ ".py")%string Lq = false).
+        { destruct (has_file (n ++ ".py")%string Lq) eqn:E; auto. destruct (K1 eq_refl) as (e & H1 & H2 & H3 & H4 & _).
+          rewrite (Hall e H1 H2 H3) in H4. discriminate. }
+        assert (N2 : has_file "__init__.py" Lm = false).
+        { destruct (has_file "__init__.py" Lm) eqn:E; auto. destruct (K2 Lm Hl E) as (e & H1 & H2 & H3 & H4 & _).
+          rewrite (Hall e H1 H2 H3) in H4. discriminate. }
+        rewrite N1, N2. simpl. rewrite Hsuf. auto.
+  Qed.
+
+  Lemma step_descend : forall q Lq m Lm r0 rest,
+    get_node L0 q = Some (Dir Lq) -> lookup_entry m Lq = Some (Dir Lm) ->
+    (has_file "__init__.py" Lm = false -> has_file (m ++ ".py")%string Lq = false) ->
+    py_import U [Dq q] (m :: r0 :: rest) = py_import U [Dq (q ++ [m])] (r0 :: rest).
+  Proof.
+    intros q Lq m Lm r0 rest Hg Hl Hno.
+    change (py_import U [Dq q] (m :: r0 :: rest)) with
+      (match py_find U m [Dq q] with
+       | PyPkg init locs => if executable init then py_import U locs (r0 :: rest) else PyErr
+       | PyNs ds => py_import U ds (r0 :: rest)
+       | PyMod f => if executable f then PyNone else PyErr
+       | PyNone => PyNone
+       | PyErr => PyErr
+       end).
+    rewrite py_find_single, (ff_src q Lq m Hg), Hl.
+    destruct (has_file "__init__.py" Lm) eqn:Ei.
+    - assert (Hgm : get_node L0 (q ++ [m]) = Some (Dir Lm)) by (rewrite get_node_snoc, Hg; auto).
+      destruct (has_file_lookup _ _ Ei) as (ns & pth & Hli).
+      destruct (Hsrc _ _ Hgm) as [_ Hdecl]. pose proof (Hdecl ns pth Hli). subst ns.
+      assert (Hnd : init_declares_ns U (Dq (q ++ [m; "__init__.py"])) = false).
+      { unfold init_declares_ns. replace (q ++ [m; "__init__.py"]) with ((q ++ [m]) ++ ["__init__.py"]) by (rewrite <- app_assoc; reflexivity).
+        rewrite (node_at_Dq_file (q ++ [m]) Lm "__init__.py" Hgm), Hli. reflexivity. }
+      rewrite Hnd.
+      assert (Hex : executable (Dq (q ++ [m; "__init__.py"])) = true).
+      { unfold executable, path_suffix, Dq. simpl. replace (snd D ++ q ++ [m; "__init__.py"]) with ((snd D ++ q ++ [m]) ++ ["__init__.py"]).
+        rewrite last_last. reflexivity. rewrite <- !app_assoc. reflexivity. }
+      rewrite Hex. reflexivity.
+    - rewrite (Hno eq_refl). reflexivity.
+  Qed.
+
+  Lemma descend_agrees : forall rest q Lq a,
+    reaches L0 q Lq -> rest <> [] -> In a es -> entry_ok a = true -> e_parts a = q ++ rest ->
+    (forall c, In c rest -> comp_ok c) ->
+    (forall q' m post, q ++ rest = q' ++ m :: post -> post <> [] ->
+                       exists x, In x es /\ entry_ok x = true /\ e_parts x = q' ++ [m]) ->
+    (is_pyi a = true -> forall b, In b es -> entry_ok b = true -> e_parts b = q ++ rest -> is_pyi b = true) ->
+    agrees (MFile (e_abs a)) (py_import U [Dq q] rest) = true.
+  Proof.
+    induction rest as [|m rest IH]; intros q Lq a Hr Hne Ha Hok Hp Hc Hpre Hall. congruence.
+    destruct rest as [|r0 rest'].
+    - change (py_import U [Dq q] [m]) with (py_find U m [Dq q]).
+      eapply leaf_agrees; eauto. apply Hc. left. auto.
+    - assert (Hdots : existsb has_dot q = false).
+      { unfold entry_ok in Hok. apply andb_true_iff in Hok. destruct Hok as [Hd _]. apply negb_true_iff in Hd.
+        rewrite Hp, existsb_app in Hd. apply orb_false_iff in Hd. tauto. }
+      destruct (Hpre q m (r0 :: rest') eq_refl) as (x & Hx & Hxok & Hxp). discriminate.
+      assert (Hpp : is_proper_prefix (q ++ [m]) (e_parts a) = true).
+      { rewrite Hp. replace (q ++ m :: r0 :: rest') with ((q ++ [m]) ++ r0 :: rest') by (rewrite <- app_assoc; reflexivity).
+        apply is_proper_prefix_app. discriminate. }
+      destruct (entry_shape x q m Hx Hxp) as [_ [(fn & Lq' & Hr' & Hf & Hrel & Hy & Hst)|(fn & Lq' & Lm & Hr' & Hl & Hnpc & Hf & Hrel & Hy & Hst)]].
+      + exfalso. pose proof (Hup x a Hx Ha Hxok Hy) as H. rewrite Hxp in H. congruence.
+      + pose proof (reaches_fun _ _ _ Hr Hr'). subst Lq'.
+        rewrite (step_descend q Lq m Lm r0 rest' (proj1 Hr) Hl).
+        * apply (IH (q ++ [m]) Lm a); auto.
+          -- split. rewrite get_node_snoc, (proj1 Hr). auto.
+             intro H. apply in_app_or in H. destruct H as [H|[H|[]]]; auto. destruct Hr as [_ Hpc]. auto.
+          -- discriminate.
+          -- rewrite Hp, <- app_assoc. reflexivity.
+          -- intros c Hcin. apply Hc. right. auto.
+          -- intros q' m' post Heq Hpost. apply (Hpre q' m' post); auto. rewrite <- Heq, <- app_assoc. reflexivity.
+          -- intros Hpyi b Hb Hbok Hbp. apply Hall; auto. rewrite Hbp, <- app_assoc. reflexivity.
+        * intros _. destruct (has_file (m ++ ".py")%string Lq) eqn:E; auto. exfalso.
+          destruct (module_file_entry q Lq m Hr E (Hc m (or_introl eq_refl)) Hdots) as (e & H1 & H2 & H3 & _ & _ & H6).
+          pose proof (Hup e a H1 Ha H2 H6) as H. rewrite H3 in H. congruence.
+  Qed.
+End Importable.
+
+Lemma chain_prefix : forall E todo cur, chain E cur todo = true ->
+  forall t1 x t2, todo = t1 ++ x :: t2 -> has_cand E (cur ++ t1 ++ [x]) = true.
+Proof.
+  induction todo as [|p r IH]; intros cur H t1 x t2 Heq. destruct t1; discriminate.
+  simpl in H. apply andb_true_iff in H. destruct H as [H1 H2].
+  destruct t1 as [|y t1]; simpl in Heq; inversion Heq; subst.
+  - simpl. auto.
+  - specialize (IH (cur ++ [y]) H2 t1 x t2 eq_refl). rewrite <- app_assoc in IH. simpl in IH. auto.
+Qed.
+
+(* Every module the static loader puts below a regular package is the module CPython imports at that dotted name
+   from that file, or is stub-only -- on source-form package trees without the shape of finding F1 and without two
+   files claiming one module name. *)
+Theorem loaded_importable_regular :
+  forall U D L0 es top k f,
+  listing_at U D = Some L0 -> deep_nodup L0 ->
+  (forall q Lq, get_node L0 q = Some (Dir Lq) ->
+     (forall n s, In s compiled_suffixes -> has_file (n ++ s)%string Lq = false) /\
+     (forall ns pth, lookup_entry "__init__.py" Lq = Some (File ns pth) -> ns = false)) ->
+  (forall e, In e es <-> exists rel, In rel (walk [] (Dir L0)) /\ yields D rel e) ->
+  no_clash es ->
+  (forall m e, In m es -> In e es -> entry_ok m = true ->
+               name_to_yield (e_rel m) = YMod (e_parts m) -> is_proper_prefix (e_parts m) (e_parts e) = false) ->
+  lookup_m k (run top (depth_sort es)) = Some (MFile f) -> k <> [] ->
+  (forall c, In c k -> c <> "" /\ c <> "__init__" /\ c <> "__pycache__") ->
+  agrees (MFile f) (py_import U [D] k) = true.
+Proof.
+  intros U D L0 es top k f HD Hdn Hsrc Hes Hnc Hup Hlk Hk Hcomp.
+  assert (Hne : forall e, In e (depth_sort es) -> e_parts e <> []).
+  { intros e He. apply (proj1 (depth_sort_In _ _)) in He. apply Hes in He. destruct He as (rel & Hw & Hy).
+    apply (yields_parts_nonempty D rel e); auto. apply (walk_nonempty (Dir L0) [] rel Hw). }
+  destruct (run_spec top (depth_sort es) (depth_sort_sorted es) Hne) as [_ Hspec].
+  rewrite Hspec in Hlk. destruct k as [|k0 kr]; [congruence|]. unfold spec_lookup in Hlk.
+  destruct (chain (depth_sort es) [] (k0 :: kr)) eqn:Hch; [|discriminate].
+  destruct (pickseq (cands (k0 :: kr) (depth_sort es))) as [p|] eqn:Hpick; [|discriminate].
+  simpl in Hlk. inversion Hlk; subst p. clear Hlk.
+  set (k := k0 :: kr) in *.
+  assert (Hcompat : compat (cands k (depth_sort es))).
+  { intros x y Hx Hy Hp. unfold cands in Hx, Hy. apply filter_In in Hx, Hy.
+    destruct Hx as [Hx Hcx], Hy as [Hy Hcy]. unfold cand in Hcx, Hcy.
+    apply andb_true_iff in Hcx, Hcy. destruct Hcx as [Px Ox], Hcy as [Py Oy].
+    apply lstr_eqb_eq in Px, Py. apply (proj1 (depth_sort_In _ _)) in Hx. apply (proj1 (depth_sort_In _ _)) in Hy.
+    apply Hnc; auto. congruence. }
+  pose proof (pickseq_sound _ _ Hcompat Hpick) as Hrel.
+  assert (Hcand : forall b, In b es -> entry_ok b = true -> e_parts b = k -> In b (cands k (depth_sort es))).
+  { intros b Hb Hbo Hbp. unfold cands. apply filter_In. split. apply depth_sort_In; auto.
+    unfold cand. rewrite Hbp, lstr_eqb_refl, Hbo. reflexivity. }
+  assert (Hget : exists a, In a es /\ entry_ok a = true /\ e_parts a = k /\ e_abs a = f /\
+                 (is_pyi a = true -> forall b, In b es -> entry_ok b = true -> e_parts b = k -> is_pyi b = true)).
+  { destruct Hrel as [(a & Ha & Hap & Hao)|[Hall (a & Ha & Hao)]];
+      (unfold cands in Ha; apply filter_In in Ha; destruct Ha as [Ha Hc]; unfold cand in Hc;
+       apply andb_true_iff in Hc; destruct Hc as [Pa Oa]; apply lstr_eqb_eq in Pa;
+       apply (proj1 (depth_sort_In _ _)) in Ha; exists a; repeat split; auto).
+    intro. congruence. }
+  destruct Hget as (a & Ha & Hok & Hp & Hf & Hall). subst f.
+  assert (Hnodots : forall c, In c k -> has_dot c = false).
+  { intros c Hc. unfold entry_ok in Hok. apply andb_true_iff in Hok. destruct Hok as [Hd _]. apply negb_true_iff in Hd.
+    rewrite Hp in Hd. destruct (has_dot c) eqn:E; auto.
+    assert (existsb has_dot k = true) by (apply existsb_exists; exists c; auto). congruence. }
+  replace D with (Dq D []) by (unfold Dq; destruct D; simpl; rewrite app_nil_r; reflexivity).
+  apply (descend_agrees U D L0 HD Hdn Hsrc es Hes Hnc Hup k [] L0 a); auto.
+  - split; simpl; auto.
+  - intros c Hc. destruct (Hcomp c Hc) as (H1 & H2 & H3). unfold comp_ok. repeat split; auto.
+  - intros q' m post Heq Hpost. simpl in Heq.
+    pose proof (chain_prefix _ _ _ Hch q' m post Heq) as Hh. simpl in Hh.
+    unfold has_cand in Hh. apply existsb_exists in Hh. destruct Hh as (x & Hx & Hc).
+    unfold cand in Hc. apply andb_true_iff in Hc. destruct Hc as [Px Ox]. apply lstr_eqb_eq in Px.
+    exists x. split. apply (proj1 (depth_sort_In _ _)) in Hx. auto. auto.
+Qed.
+
+(* ------------------------------------------------------------------------------------------------------------- *)
+(* Part I.  Decidable forms of the hypotheses, and the theorem stated on the model's own load of a regular package *)
+
+Lemma mem_str_In : forall x l, mem_str x l = true <-> In x l.
+Proof.
+  intros. unfold mem_str. rewrite existsb_exists. split.
+  - intros (y & Hy & E). apply String.eqb_eq in E. subst. auto.
+  - intro H. exists x. split; auto. apply String.eqb_refl.
+Qed.
+
+Lemma nodupb_sound : forall l, nodupb l = true -> NoDup l.
+Proof.
+  induction l; simpl; intro H. constructor. apply andb_true_iff in H. destruct H as [H1 H2].
+  constructor; auto. intro Hin. apply mem_str_In in Hin. rewrite Hin in H1. discriminate.
+Qed.
+
+Lemma strip_suffix_app : forall n s, strip_suffix (n ++ s)%string s <> None.
+Proof.
+  assert (Hrefl : forall s, strip_suffix s s <> None).
+  { intro s. destruct s; cbn [strip_suffix]; rewrite String.eqb_refl; intro H; discriminate. }
+  induction n as [|c r IH]; intros s. apply Hrefl.
+  change (String c r ++ s)%string with (String c (r ++ s)). cbn [strip_suffix].
+  destruct (String c (r ++ s) =? s). intro H; discriminate.
+  specialize (IH s). destruct (strip_suffix (r ++ s) s); [intro H; discriminate|congruence].
+Qed.
+
+Lemma srcb_sound : forall es, NoDup (map fst es) -> srcb es = true ->
+  (forall n s, In s compiled_suffixes -> has_file (n ++ s)%string es = false) /\
+  (forall ns pth, lookup_entry "__init__.py" es = Some (File ns pth) -> ns = false).
+Proof.
+  intros es Hnd H. unfold srcb in H. apply andb_true_iff in H. destruct H as [H1 H2]. split.
+  - intros n s Hs. unfold has_file. destruct (lookup_entry (n ++ s)%string es) as [[a b|?]|] eqn:E; auto.
+    exfalso. apply lookup_entry_In_iff in E; auto. rewrite forallb_forall in H1. specialize (H1 _ E). cbn [snd fst is_file negb orb] in H1.
+    rewrite forallb_forall in H1. specialize (H1 s Hs). pose proof (strip_suffix_app n s).
+    destruct (strip_suffix (n ++ s) s); [discriminate|congruence].
+  - intros ns pth E. rewrite E in H2. destruct ns; [discriminate|reflexivity].
+Qed.
+
+Lemma tree_okb_deep : forall q L Lq, tree_okb (Dir L) = true -> get_node L q = Some (Dir Lq) -> tree_okb (Dir Lq) = true.
+Proof.
+  induction q as [|c r IH]; intros L Lq H Hg; simpl in Hg.
+  - inversion Hg; subst. auto.
+  - destruct (lookup_entry c L) as [[a b|L']|] eqn:E; try discriminate. destruct r; discriminate.
+    destruct (lookup_entry_In _ _ _ E) as [k Hk].
+    simpl in H. apply andb_true_iff in H. destruct H as [_ H]. rewrite forallb_forall in H. specialize (H _ Hk). simpl in H.
+    eapply IH; eauto.
+Qed.
+
+Lemma tree_okb_hyps : forall L, tree_okb (Dir L) = true ->
+  deep_nodup L /\
+  (forall q Lq, get_node L q = Some (Dir Lq) ->
+     (forall n s, In s compiled_suffixes -> has_file (n ++ s)%string Lq = false) /\
+     (forall ns pth, lookup_entry "__init__.py" Lq = Some (File ns pth) -> ns = false)).
+Proof.
+  intros L H. split.
+  - intros q Lq Hg. pose proof (tree_okb_deep q L Lq H Hg) as Hq. simpl in Hq.
+    apply andb_true_iff in Hq. destruct Hq as [Hq _]. apply andb_true_iff in Hq. destruct Hq as [Hq _]. apply nodupb_sound. auto.
+  - intros q Lq Hg. pose proof (tree_okb_deep q L Lq H Hg) as Hq. simpl in Hq.
+    apply andb_true_iff in Hq. destruct Hq as [Hq _]. apply andb_true_iff in Hq. destruct Hq as [Hn Hs].
+    apply srcb_sound; auto. apply nodupb_sound. auto.
+Qed.
+
+Lemma upb_sound : forall es, upb es = true ->
+  forall m e, In m es -> In e es -> entry_ok m = true ->
+              name_to_yield (e_rel m) = YMod (e_parts m) -> is_proper_prefix (e_parts m) (e_parts e) = false.
+Proof.
+  intros es H m e Hm He Hok Hy. unfold upb in H. rewrite forallb_forall in H. specialize (H m Hm).
+  rewrite forallb_forall in H. specialize (H e He). unfold yields_modb in H. rewrite Hok, Hy, lstr_eqb_refl in H. simpl in H.
+  apply negb_true_iff in H. auto.
+Qed.
+
+Theorem loaded_importable_regular_checked :
+  forall U i dirc st M,
+  in_domain U i dirc = true ->
+  load_found false U (FPkg (i, dirc ++ ["__init__.py"]) st) = LOk M ->
+  forall k f, lookup_m k M = Some (MFile f) -> key_okb k = true ->
+  agrees (MFile f) (py_import U [(i, dirc)] k) = true.
+Proof.
+  intros U i dirc st M Hdom Hload k f Hlk Hkey.
+  unfold in_domain in Hdom.
+  destruct (node_at U (i, dirc)) as [[a b|L0]|] eqn:En; try discriminate.
+  destruct (iter_regular U (i, dirc ++ ["__init__.py"])) as [es|x] eqn:Ei; try discriminate.
+  apply andb_true_iff in Hdom. destruct Hdom as [Hdom Hup]. apply andb_true_iff in Hdom. destruct Hdom as [Htree Hnc].
+  destruct (tree_okb_hyps L0 Htree) as [Hdn Hsrc].
+  unfold load_found in Hload. rewrite Ei in Hload.
+  destruct (node_at U (i, dirc ++ ["__init__.py"])) as [[a b|?]|]; try discriminate.
+  inversion Hload; subst M. clear Hload.
+  unfold key_okb in Hkey. apply andb_true_iff in Hkey. destruct Hkey as [Hk1 Hk2].
+  assert (Hes : forall e, In e es <-> exists rel, In rel (walk [] (Dir L0)) /\ yields (i, dirc) rel e).
+  { unfold iter_regular, start_dir in Ei. simpl in Ei. rewrite last_last in Ei. simpl in Ei.
+    rewrite List.removelast_last in Ei.
+    pose proof (iter_files_noskip (i, dirc) (portion_files U (i, dirc)) []) as Hn.
+    destruct (iter_files (i, dirc) [] (portion_files U (i, dirc)) []) as [[es' s]|x]; try discriminate.
+    inversion Ei; subst es'. destruct Hn as [_ Hn]. unfold portion_files in Hn. rewrite En in Hn. auto. }
+  apply (loaded_importable_regular U (i, dirc) L0 es (i, dirc ++ ["__init__.py"]) k f); auto.
+  - unfold listing_at. rewrite En. reflexivity.
+  - apply no_clashb_sound. auto.
+  - apply upb_sound. auto.
+  - destruct k; [discriminate|congruence].
+  - intros c Hc. rewrite forallb_forall in Hk2. specialize (Hk2 c Hc).
+    apply andb_true_iff in Hk2. destruct Hk2 as [Hk2 H3]. apply andb_true_iff in Hk2. destruct Hk2 as [H1 H2].
+    apply negb_true_iff in H1, H2, H3. apply String.eqb_neq in H1, H2, H3. auto.
+Qed.
+
+(* non-vacuity: an ordinary nested package is inside the domain, is loaded, and the conclusion is computed to hold *)
+Example in_domain_example : in_domain U_ok2 1 ["aa"] = true.
+Proof. vm_compute. reflexivity. Qed.
+Example loaded_importable_example :
+  exists M, load_found false U_ok2 (FPkg (1, ["aa"; "__init__.py"]) None) = LOk M /\
+            lookup_m ["sub"; "x"] M = Some (MFile (1, ["aa"; "sub"; "x.py"])) /\
+            agrees (MFile (1, ["aa"; "sub"; "x.py"])) (py_import U_ok2 [(1, ["aa"])] ["sub"; "x"]) = true /\
+            lookup_m ["m"] M = Some (MFile (1, ["aa"; "m.py"])).
+Proof. eexists. split. vm_compute. reflexivity. repeat split; vm_compute; reflexivity. Qed.
